@@ -21,25 +21,26 @@ func init() {
 		ID:    "C06",
 		Title: "Live index and corpus always equal what a restart would load",
 		Explanation: "Decided (structural necessary conditions, all in pkg/index): " +
-			"K-tables — the three row-kind tables agree: every prefix in slurpPrefixes (what a restart scans) has a non-nil merge function in corpusMergeFunc and is spelt with the separator the indexer actually writes for that kind; every non-nil merge function's kind is in slurpPrefixes; every row kind the indexer can write (keys given to mutationMap.Set, stored into mutationMap.kv, or written straight to the sorted.KeyValue) is classified — a key of corpusMergeFunc or an entry of the reasoned index-only table; scanFromStorage scans exactly slurpPrefixes (explicit head + the ranged tail); the live merge in Corpus.addBlob dispatches through corpusMergeFunc[typeOfKey(k)] on the very (k,v) of mm.kv behind a gate equivalent to the load set; slurpedKeyType is built only from slurpPrefixes; scanPrefix dispatches through the same table. " +
-			"K-owner — who may write the caches that a restart rebuilds from rows: Index.deletes is (re)assigned only by the loader of 'deleted' rows (before it reads them) or on a freshly allocated Index that is not loaded afterwards; its map is written only by the constructor, the loader and the live updater, and every call of the live updater comes after a successful CommitBatch with a claim taken from mm.deletes; New's success returns are dominated by both loaders or lie in the about-to-reindex branch with a fresh cache; Index.needs/neededBy/readyReindex are written only by the tabled functions, and the in-memory adder is called only from the 'missing' row loader or after the matching 'missing' row was written successfully; Corpus fields are written only by *Corpus methods (or the constructor) that are reachable only from the load entry (scanFromStorage) or the live entry (addBlob); Corpus.deletes is written only by its 'deleted'-row loader, which dominates every success return of scanFromStorage, and by the live updater, every caller of which passes a claim of mm.deletes; Index.corpus is only ever NewCorpusFromStorage(x.s) of the same index and Index.s is never replaced on a live index (one reasoned test hook); mutationMap.deletes is written only by noteDelete. " +
-			"K-delete-row — every mm.noteDelete(cl) is dominated by an mm.Set of a keyDeleted row on the same mm whose key parts are cl.Target(), cl.ClaimDateString(), cl.Blob().BlobRef() in the order kvDeleted reads them (or by a successful call of a function all of whose success returns are so dominated), and every keyDeleted row put into mm is followed on all paths by noteDelete on that mm. " +
-			"K-live — in every caller of Index.commit/Corpus.addBlob (today ReceiveBlob only): addBlob receives the same mutationMap commit wrote, is dominated by commit's success, runs under the index write lock, and every path from a successful commit to a success return passes addBlob unless the corpus is nil; commit applies mm.deletes to the index cache only after CommitBatch succeeded and writes every (k,v) of mm.kv into the batch it commits; rows of a kind the corpus merges are never written to the store behind the corpus's back (direct KeyValue.Set/Delete sites write only non-slurped kinds; one reasoned exception); every success return of addBlob comes after its merge loops over mm.kv and mm.deletes (violated on the current tree by the duplicate-blob early return: a delete claim that arrived before its target is committed twice, the second time with its 'deleted' and 'claim' rows, and the live corpus skips that second mutation map). " +
+			"K-tables — the three row-kind tables agree: every prefix in slurpPrefixes (what a restart scans) has a non-nil merge function in corpusMergeFunc and is spelt with the separator the indexer actually writes for that kind; every non-nil merge function's kind is in slurpPrefixes; every row kind the indexer can write (keys given to mutationMap.Set, stored into mutationMap.kv, or written straight to the sorted.KeyValue; a key or key map that is a parameter of a wrapper is resolved at every call site of the wrapper) is classified — a key of corpusMergeFunc or an entry of the reasoned index-only table; scanFromStorage scans exactly slurpPrefixes (explicit head + the ranged tail); the live merge in Corpus.addBlob dispatches through corpusMergeFunc[typeOfKey(k)] on the very (k,v) of mm.kv behind a gate equivalent to the load set; slurpedKeyType is built only from slurpPrefixes; scanPrefix dispatches through the same table. " +
+			"K-owner — who may write the caches that a restart rebuilds from rows: Index.deletes is (re)assigned only by the loader of 'deleted' rows (before it reads them) or on a freshly allocated Index that is not loaded afterwards; its map is written only by the constructor, the loader and the live updater, and every call of the live updater comes after a successful CommitBatch with a claim taken from mm.deletes; New's success returns are dominated by both loaders or lie in the about-to-reindex branch with a fresh cache; Index.needs/neededBy: an add (x.f[k] = append(x.f[k], v), recognised by its shape, not by the name of the function it stands in) happens only while loading the 'missing' rows or after the 'missing|have|missing' row keyed by the same pair was written successfully — where the add stands, or at every call site of the function that makes it (the in-memory adder); the other writes of needs/neededBy/readyReindex only in the tabled functions (their function literals included); Corpus fields are written only by *Corpus methods, unexported helpers of pkg/index, or the constructor, reachable only from the load entry (scanFromStorage) or the live entry (addBlob); Corpus.deletes is written only by its 'deleted'-row loader, which dominates every success return of scanFromStorage, and by the live updater, every caller of which passes a claim of mm.deletes; Index.corpus is only ever NewCorpusFromStorage(x.s) of the same index and Index.s is never replaced on a live index (one reasoned test hook); mutationMap.deletes is appended to only by the note-delete step (a function that appends its claim parameter to its mutation-map parameter, recognised by that) or at a place that itself satisfies K-delete-row. Roles are decided on EFFECTIVE BODIES (see below); an unexported helper that writes a cache is accepted when every one of its static callers is, with the helper's writes counted as its own, accepted in one of the roles (recursively, depth 3), and reported when it has any other caller. " +
+			"K-delete-row — every note of a delete claim (call of the note-delete step, or direct append to mm.deletes) is preceded, in the effective body of the function or — that being a helper — of each of its callers, by a put of a keyDeleted row (mutationMap.Set or a store into mm.kv) on the same mm whose key parts are cl.Target(), cl.ClaimDateString(), cl.Blob().BlobRef() in the order kvDeleted reads them, values followed through helper parameters; a put inside a helper counts only if every success return of the helper has passed it and the note is on the helper's err == nil edge; and every keyDeleted row put into mm is followed on all paths — through helpers that always note, and past the return of a helper into each of its callers — by the note on that mm. " +
+			"K-live — at every call of Corpus.addBlob (today in ReceiveBlob only): addBlob receives the same mutationMap a successful Index.commit wrote (commit found in the effective body of the caller, or of every caller of the caller when that is a helper; mm and the index followed through parameters), on the corpus field of that very index, under that index's write lock (a helper is entered with the locks that every one of its static callers holds at the call; it must not release before addBlob); every path from a commit to a success return passes addBlob on the same mm unless the corpus is nil — a helper that always (or on every success return) reaches addBlob counts, a helper's return continues in its callers; commit applies mm.deletes to the index cache only after CommitBatch succeeded and, in its effective body, writes every (k,v) of mm.kv unconditionally into the one batch it begins and commits; rows of a kind the corpus merges are never written to the store behind the corpus's back (direct KeyValue.Set/Delete sites write only non-slurped kinds; one reasoned exception, helpers called only from it included, re-checked: every caller re-opens the index); every success return of addBlob comes after its merge loops over mm.kv and mm.deletes, loops in helpers counting when every success return of the helper is behind the loop and addBlob is on the helper's success edge (violated on the current tree by the duplicate-blob early return: a delete claim that arrived before its target is committed twice, the second time with its 'deleted' and 'claim' rows, and the live corpus skips that second mutation map). " +
+			"EFFECTIVE BODIES (K-tables scan set / live gate / scan dispatch / row kinds, K-owner, K-delete-row, K-live): a site `in function F` is looked for in F plus, transitively to depth 4, the unexported functions and methods of pkg/index and the function literals F calls statically (literals handed to a call or returned are included as `runs later, maybe`), a parameter of a helper standing for the caller's argument. `P done before Q` across a call: the call precedes Q, Q is on the call's err == nil edge (or returns the call's own error), and inside the helper every return that may report success is itself behind P in the same sense; go/defer/callback links never establish `done`. Who-may-call / who-may-write rules accept an unexported helper only if ALL its static callers are accepted (no function-value use, no interface dispatch), and keep reporting any other. " +
 			"K-inval — derived live state is invalidated / re-derived when its inputs change. Generation-stamped caches are discovered, not named: a struct field of pkg/index (today lazySortedPermanodes.ofGen) that is compared with or assigned from an integer field of Corpus/Index (today Corpus.gen). (reader, #cache-protocol) a forward abstract interpretation of every function touching the cache fields (callees on the same cache object analysed in context) decides that content which may date from an older generation is returned, stored or passed on only on the stamp==generation edge, that a cache field is rebuilt only from such content, and that the stamp is assigned only the generation itself and only when every cache field it then vouches for was cleared, rebuilt, or is on that edge. (generation, #gen-store) every assignment of the generation on an existing corpus is `itself + positive constant`; its address is never handed out. (writer, #inval:T.f) the set of locations (struct field, or elements of a named map/slice type, of pkg/index and pkg/types/camtypes) read by the functions that compute the cache content is collected over the resolved call structure (static calls, the pnTime functions stored into the cache object, restricted-CHA invokes, callbacks; branches contradicted by constant string arguments such as signerFilter==\"\" are pruned); every write of such a location in a function reachable from Corpus.addBlob (static calls, the corpusMergeFunc dispatch, function parameters such as mutateFileInfo's fn; writes through map/slice parameters are attributed to the argument; sort.*/slices.Sort* count as in-place writes) must, on every path through addBlob that executes it, also pass an increment of the generation: the increment dominates the write in the same function, or every path from the write to a return of that function passes one, or (recursively) this holds at every call site up to addBlob; a callee that increments on all its paths counts as an increment; `go` never does. Both placements (once in addBlob, or in every writer) are accepted; an uncovered writer is reported with function and location. (#inval-outside) a write of such a location in any other module function is allowed only under scanFromStorage; (#load-on-fresh-corpus) scanFromStorage runs only on a Corpus its caller just allocated, which is why the load path needs no increment; (#no-cache-reader) no cache builder is reachable from addBlob/scanFromStorage (undecided otherwise). (#derived) PermanodeMeta fields assigned by restoreInvariants (attr, signer) are derived from the other receiver fields it reads (Claims): on the live path every write of Claims on an existing permanode is followed, on every path to a return with building==false, by a call on the same permanode of a method that writes attr/signer (or a direct assignment); Corpus.building is assigned only by scanFromStorage and false on its success returns. (#order-invariant / #order:T.f) order invariants are discovered, not named: every in-place sort (sort.Sort/Stable/Slice/SliceStable, slices.Sort*) executed under a load entry (scanFromStorage for the corpus; initDeletesCacheLocked for the index's own deletion cache) on a slice that is, is an element of, or is stored into a struct field of index/corpus state (today PermanodeMeta.Claims by claim date, Corpus.deletes[target] and deletionCache.m[target] by deletion date, newest first) makes `sorted by that comparator` an invariant of the field; the comparator is identified by what it computes — its Less method / less function rendered symbolically over SLICE, I, J (sort.Reverse swaps I and J), e.g. call((time.Time).Before;SLICE[I].Date;SLICE[J].Date) — not by its type name. Every write of such a field reachable from the live entry (addBlob with building == false; Index.commit) must either store a value that was sorted by the same symbolic comparator on every path to the store, or be followed on every path to the return of the writing function (and, when the written object is a parameter, of its callers up to the live entry) by one of: the same sort of the same field of the same object (directly, or a call handing on the object or the slice to a function all of whose returns are so covered); the in-order edge of a comparison of the last two elements by the comparator's own key (Less(len-2,len-1) true or Less(len-1,len-2) false, also written out on the key fields, with After for Before, through a one-line helper, or kept in a local) — accepted only while the slice is `sorted + exactly one appended element`; an edge on which len(field) < 2 (== 0, == 1, <= 1; if or switch) is known, the length and elements having been read after the last write. A return reached otherwise is reported as `the live path can leave T.f unsorted; the load path sorts it`; a live sort of the field by another comparator is reported too; element stores and writes through aliases are undecided. " +
 			"K-order-free — the result of merging a set of rows does not depend on the ORDER in which rows of different kinds are merged (a restart merges kind by kind in slurpPrefixes order, every 'meta' row before every other row; the live corpus merges in arrival order and, within one mutation map, in Go map order). Row kinds are the non-nil entries of corpusMergeFunc, each with its own resolved call structure (so mutateFileInfo's fn is that kind's closure only); *Corpus methods that addBlob / scanPrefix call directly join the kind whose merge function they reach (addKeyID: signerkeyid) or, when they write corpus state themselves, form the kind of rows merged outside the table (updateDeletes). For every function under a kind, every branch condition on which a write of corpus state (struct fields and elements of named map/slice types of pkg/index and camtypes, by type), a panic, or a call leading to one is (transitively) control dependent — control dependence from post-dominators, return and panic both exits —, and every non-nil error result of the kind's entry points, is sliced backwards through data AND control dependence: operands, phi selection, results of calls (returned values plus the conditions that select the return, the callee entered with a bounded call-string context so that a helper's parameters are those of the call under analysis), closures, captured variables, spilled locals, objects built in place and what callees store into them, parameters bound to the arguments at the kind's own call sites; code outside pkg/index/camtypes is taken to compute from its arguments only. The slice may reach only (1) the row (k, v, the mutation map), (2) locations no other kind's call structure writes (get-or-create of the kind's own entries, c.building, ...), (3) locations all of whose other writers belong to kinds merged first on BOTH paths — load: an explicit scanPrefix of that prefix success-dominates the scan that delivers this kind; live: a direct merger of that kind, given addBlob's mutation map, success-dominates the row dispatch (today only keyId, read when claims are merged). Anything else — c.blobs (filled by 'meta' rows) deciding whether a dirchild/fileinfo/imagesize/claim row or a deletion takes effect, c.files (fileinfo and filetimes), c.deletes, ... — is reported with the function, the location and its writers. What makes the helpers transparent is proved, not named: a field that is only ever read to be written back (brInterns) is no effect; a Corpus map all of whose updates are M[k] = k (strs) or M[v.f] = v with f never reassigned anywhere (blobs by .Ref), used only through its field, is an interning table, the maintenance of an identity table is no effect, and a function whose every return is the same function of one parameter — the parameter, a conversion of it, a constant it is known to equal, or what such a table holds under it on the `found` edge — passes on only that argument's dependences (br, str, strB); a field every load of which is preceded on all paths by the function's own stores (the scratch slice ss) carries the stored values; a zero-length reslice carries nothing. A read that only selects WHICH value is written (mutateFileInfo's read-modify-write of c.files, shared by fileinfo and filetimes) is listed as a note, not an obligation. " +
 			"NOT decided: that the merge functions compute from a row the same state live as at load for every history (e.g. the `building`-only update of hasLegacySHA1; that fixupLastClaim's incremental attribute update equals restoreInvariants' full rebuild; the relative order of elements the comparator considers equal — sort.Sort is not stable and the load path sees row order, the live path arrival order; order invariants that the load path gets from the row order of the sorted.KeyValue rather than from an explicit sort), that every reader of the caches holds the index lock, that the read set is exact (it is an over-approximation by type: e.g. any FileInfo.Time write counts), generation increments placed in callers of addBlob (reported as uncovered), equality of query answers for any concrete arrival history or sorted.KeyValue backend, behaviour of out-of-order arrival beyond the order and order-free clauses, contents of rows; for K-order-free: that the keyId entry a claim row consults is the one carried by the same mutation map (a fact of receive.go), order dependence through WHICH value is written (noted only: fileinfo and filetimes write disjoint FileInfo fields, which is not checked), implicit panics (nil dereference, index out of range), conditions in the drivers themselves (addBlob's duplicate check is K-live's finding), the load-side reader of 'deleted' rows (initDeletes) against its live counterpart updateDeletes (two functions: their agreement is not decided), hidden state of functions outside pkg/index/camtypes; locations are by type, so two objects of one type are not told apart (over-approximation: can only add reports).",
 		RuleDocs: map[string]string{
 			"K-tables":     "H6 table agreement over slurpPrefixes / corpusMergeFunc / written row kinds (+ separators), scan set, live-merge gate and dispatch",
-			"K-owner":      "H5 who-may-write: Index.deletes (+ its map), Index.needs/neededBy/readyReindex, Corpus fields, mutationMap.deletes; open path loads both caches",
-			"K-delete-row": "H2: noteDelete only where the 'deleted' row for the same claim was put into the same mutation map, and vice versa",
-			"K-live":       "H7/H3/H2: addBlob gets the committed mm, after commit success, under the write lock, and merges all of it; commit feeds caches only after CommitBatch; no slurped row kind bypasses commit",
+			"K-owner":      "H5 who-may-write by role, over effective bodies: Index.deletes (+ its map: constructor / loader / live updater after CommitBatch / after Wipe), adds to Index.needs/neededBy (loader, or after the matching 'missing' row), other writes of needs/neededBy/readyReindex (table), Corpus fields, Corpus.deletes, mutationMap.deletes; a helper is accepted only if all its callers are; open path loads both caches",
+			"K-delete-row": "H2 over effective bodies: a delete claim is noted (note-delete step, by role) only where the 'deleted' row for the same claim was put into the same mutation map, and vice versa (paths followed into helpers and past helper returns)",
+			"K-live":       "H7/H3/H2 over effective bodies: addBlob gets the committed mm, after commit success, under the write lock (helpers entered with the locks all their callers hold), and merges all of it; commit feeds caches only after CommitBatch; no slurped row kind bypasses commit",
 			"K-order-free": "backward slice (data + control dependence, interprocedural with call-string context) of every branch condition that decides whether a merge function writes corpus state, panics or fails: it may depend only on the row, on state no other row kind writes, or on state of a kind both paths merge first; c.br/c.str/c.strB are transparent by proof (interning tables M[k]=k, M[v.f]=v), brInterns and the scratch slice by dataflow facts",
 			"K-inval":      "H2 over the resolved call structure + abstract interpretation: every live write of a location the generation-stamped caches (lazySortedPermanodes, stamp ofGen vs Corpus.gen) are computed from passes a generation increment within addBlob; the caches are served only on the stamp==generation edge and stamped only with what they were built at; the generation only grows; other writers run only on a fresh corpus under scanFromStorage; PermanodeMeta.attr/signer are re-derived after every live write of Claims; #order: every field the load path sorts in place (discovered; comparator compared symbolically) is, after every live write, re-sorted by the same comparator, or known in order from a last-two comparison by the comparator's key after a one-element append, or known shorter than 2, on every path to the return of the live maintenance functions",
 		},
 		Run:       runC06,
 		DesignRef: "DESIGN.md §4 C06",
-		Technique: "static analysis: table agreement extracted from the package initializer's SSA, who-may-write enumeration over field stores and map updates, dominance on error-nil edges, lockset, value dependence; for K-inval: field read/write sets by type over a resolved call graph (table dispatch, function-valued fields and parameters, callbacks), interprocedural must-pass-through (dominance or post-dominance of a generation increment at each level of the call chain), and a forward dataflow over the cache readers (stamp-valid / may-hold-old-content bits per cache field); for the order clause: symbolic rendering of comparators (Less methods and less functions inlined over placeholders) to compare the load path's sorts with the live path's sorts and order checks, and a three-state path exploration (sorted / sorted plus one appended element / unknown) with branch facts, phi-resolved conditions and per-callee summaries; for K-order-free: post-dominator based control dependence, an interprocedural backward slice (data and control dependence, bounded call-string contexts, closures, captured and spilled variables, must-reaching stores for scratch fields), per-kind call structures and write sets, table invariants (identity / keyed-by-field maps) proved from every update site, symbolic equality of all returns of a helper, success-dominance for the merged-first relation on the load and the live path",
-		LevelText: "Decides structural necessary conditions only: the live path and the restart path of the index deletion cache, the dependency maps and the corpus are driven by the same row kinds, the same rows and the same tables, and no other code writes those caches. Also decides that the lazily sorted permanode caches cannot outlive a change of anything they are computed from (one generation increment per update that writes an input, caches served only for the current generation) and that the per-permanode attribute caches are brought up to date after every live claim, and that every slice the load path sorts (claims of a permanode, deletions of a blob in the corpus and in the index cache) is left sorted by the same comparator by every live write, on every path. Also decides that no merge function lets state filled by rows of another kind decide whether its own row takes effect (the live arrival order and the restart's kind-by-kind order would then give different corpora from the same rows), except where both paths merge that other kind first. Does not decide that both paths compute equal state for every arrival history, nor anything about concrete sorted.KeyValue backends.",
+		Technique: "static analysis: table agreement extracted from the package initializer's SSA, who-may-write enumeration over field stores and map updates with role classification, dominance on error-nil edges carried across static calls of unexported helpers and function literals (effective bodies with call chains, parameter-to-argument resolution, success-return summaries), path exploration with helper summaries and continuation into callers, locksets with inferred entry locksets of helpers, value dependence; for K-inval: field read/write sets by type over a resolved call graph (table dispatch, function-valued fields and parameters, callbacks), interprocedural must-pass-through (dominance or post-dominance of a generation increment at each level of the call chain), and a forward dataflow over the cache readers (stamp-valid / may-hold-old-content bits per cache field); for the order clause: symbolic rendering of comparators (Less methods and less functions inlined over placeholders) to compare the load path's sorts with the live path's sorts and order checks, and a three-state path exploration (sorted / sorted plus one appended element / unknown) with branch facts, phi-resolved conditions and per-callee summaries; for K-order-free: post-dominator based control dependence, an interprocedural backward slice (data and control dependence, bounded call-string contexts, closures, captured and spilled variables, must-reaching stores for scratch fields), per-kind call structures and write sets, table invariants (identity / keyed-by-field maps) proved from every update site, symbolic equality of all returns of a helper, success-dominance for the merged-first relation on the load and the live path",
+		LevelText: "Decides structural necessary conditions only: the live path and the restart path of the index deletion cache, the dependency maps and the corpus are driven by the same row kinds, the same rows and the same tables, and no other code writes those caches. Also decides that the lazily sorted permanode caches cannot outlive a change of anything they are computed from (one generation increment per update that writes an input, caches served only for the current generation) and that the per-permanode attribute caches are brought up to date after every live claim, and that every slice the load path sorts (claims of a permanode, deletions of a blob in the corpus and in the index cache) is left sorted by the same comparator by every live write, on every path. Also decides that no merge function lets state filled by rows of another kind decide whether its own row takes effect (the live arrival order and the restart's kind-by-kind order would then give different corpora from the same rows), except where both paths merge that other kind first. Does not decide that both paths compute equal state for every arrival history, nor anything about concrete sorted.KeyValue backends. The function-local clauses (K-tables, K-owner, K-delete-row, K-live, the building flag) are decided on effective bodies — a function together with the unexported helpers and function literals it calls, ordering and success facts carried across the calls, helpers accepted only when all their callers are — so that extracting a helper, splitting a function, turning a closure into a method or inlining a one-line helper neither hides a breakage nor raises an alarm; the name anchors that remain are the mechanism's own entry points (New, ReceiveBlob's commit/addBlob, scanFromStorage/scanPrefix, NewCorpusFromStorage, initDeletesCacheLocked, restoreInvariants, typeOfKey).",
 	})
 }
 
@@ -78,6 +79,12 @@ type c06Ctx struct {
 
 	ffCache   map[c06Loc][]*ssa.Function
 	seesCache map[*types.Package]bool
+
+	linkCache    map[*ssa.Function][]c06Link
+	reachCache   map[string]*c06Reach
+	callersCache map[*ssa.Function]*c06Callers
+	entryCache   map[*ssa.Function]LockSet
+	lockCache    map[*ssa.Function]*LockInfo
 
 	allCG    *c06CG // every module function that can name corpus state (lazily built, shared by K-inval and K-order-free)
 	allSites []c06WSite
@@ -250,6 +257,43 @@ func c06SplitKind(prefix string, complete bool) (c06Kind, bool) {
 
 func (cx *c06Ctx) kindOfKey(v ssa.Value) (c06Kind, bool) {
 	return c06SplitKind(cx.keyPrefix(v, 0))
+}
+
+// kindsOfKeyUp: the row kinds key value v may denote; when v is a parameter of
+// a helper all of whose callers can be enumerated (a wrapper extracted around
+// the write), the kinds of the arguments at every call site.
+func (cx *c06Ctx) kindsOfKeyUp(v ssa.Value, depth int) ([]c06Kind, bool) {
+	if k, ok := cx.kindOfKey(v); ok {
+		return []c06Kind{k}, true
+	}
+	prm, ok := originValue(v).(*ssa.Parameter)
+	if !ok || depth >= c06EffDepth {
+		return nil, false
+	}
+	fn := prm.Parent()
+	sites, ok := cx.enumerableCallers(fn)
+	if !ok {
+		return nil, false
+	}
+	idx := -1
+	for i, q := range fn.Params {
+		if q == prm {
+			idx = i
+		}
+	}
+	var out []c06Kind
+	for _, cs := range sites {
+		args := cs.Args()
+		if idx < 0 || idx >= len(args) {
+			return nil, false
+		}
+		ks, ok := cx.kindsOfKeyUp(args[idx], depth+1)
+		if !ok {
+			return nil, false
+		}
+		out = append(out, ks...)
+	}
+	return out, len(out) > 0
 }
 
 // loadTables reads corpusMergeFunc and slurpPrefixes from the initializer.
@@ -535,26 +579,69 @@ func (cx *c06Ctx) keyKinds(v ssa.Value, depth int) (kinds []c06Kind, conduit, ok
 	if depth > 4 {
 		return nil, false, false
 	}
-	if k, ok := cx.kindOfKey(v); ok {
-		return []c06Kind{k}, false, true
+	if ks, ok := cx.kindsOfKeyUp(v, 0); ok {
+		return ks, false, true
 	}
 	if m, idx, isRange := c06RangeMapOf(originValue(v)); isRange && idx == 1 {
-		if cx.isMMKV(m) {
-			return nil, true, true
-		}
-		if mk, isLocal := originValue(m).(*ssa.MakeMap); isLocal {
-			all := true
-			for _, ref := range *mk.Referrers() {
-				if mu, isUpd := ref.(*ssa.MapUpdate); isUpd && mu.Map == ssa.Value(mk) {
-					ks, _, ok := cx.keyKinds(mu.Key, depth+1)
-					if !ok {
-						all = false
-					}
-					kinds = append(kinds, ks...)
+		return cx.mapKeyKinds(m, depth)
+	}
+	return nil, false, false
+}
+
+// mapKeyKinds: the kinds of the keys of map m: a mutationMap's kv (conduit), a
+// local map literal all of whose keys resolve, or — m being a parameter of a
+// helper whose callers can be enumerated — what every caller passes.
+func (cx *c06Ctx) mapKeyKinds(m ssa.Value, depth int) (kinds []c06Kind, conduit, ok bool) {
+	if depth > 4 {
+		return nil, false, false
+	}
+	if cx.isMMKV(m) {
+		return nil, true, true
+	}
+	switch x := originValue(m).(type) {
+	case *ssa.MakeMap:
+		all := true
+		for _, ref := range *x.Referrers() {
+			if mu, isUpd := ref.(*ssa.MapUpdate); isUpd && mu.Map == ssa.Value(x) {
+				ks, _, ok := cx.keyKinds(mu.Key, depth+1)
+				if !ok {
+					all = false
 				}
+				kinds = append(kinds, ks...)
 			}
-			return kinds, false, all && len(kinds) > 0
 		}
+		return kinds, false, all && len(kinds) > 0
+	case *ssa.Parameter:
+		fn := x.Parent()
+		sites, enumerable := cx.enumerableCallers(fn)
+		if !enumerable {
+			return nil, false, false
+		}
+		idx := -1
+		for i, q := range fn.Params {
+			if q == x {
+				idx = i
+			}
+		}
+		nConduit := 0
+		for _, cs := range sites {
+			args := cs.Args()
+			if idx < 0 || idx >= len(args) {
+				return nil, false, false
+			}
+			ks, cd, ok := cx.mapKeyKinds(args[idx], depth+1)
+			if !ok {
+				return nil, false, false
+			}
+			if cd {
+				nConduit++
+			}
+			kinds = append(kinds, ks...)
+		}
+		if nConduit > 0 {
+			return kinds, nConduit == len(sites), nConduit == len(sites)
+		}
+		return kinds, false, len(kinds) > 0
 	}
 	return nil, false, false
 }
@@ -675,17 +762,22 @@ func (cx *c06Ctx) deleteKinds(key ssa.Value) ([]c06Kind, bool) {
 // rowWrites enumerates every place pkg/index produces a row key.
 func (cx *c06Ctx) rowWrites() (writes []c06RowWrite, conduits []CallSite) {
 	r, p := cx.r, cx.p
-	setFn := p.Func(c06Rel, "mutationMap", "Set")
-	for _, c := range p.StaticCallers(setFn) {
-		k, ok := cx.kindOfKey(c.Args()[1])
-		if !ok {
-			r.Undecided("K-tables", FuncKey(c.Fn)+"#row:?", p.Pos(c.Pos()), "the key given to mutationMap.Set has no static `<kind><separator>` prefix: the row kind cannot be determined")
-			continue
+	// mutationMap.Set, when the map update is wrapped in it (a small helper: tolerated absent)
+	setFn := p.LookupFunc(c06Rel, "mutationMap", "Set")
+	if setFn != nil {
+		for _, c := range p.StaticCallers(setFn) {
+			ks, ok := cx.kindsOfKeyUp(c.Args()[1], 0)
+			if !ok {
+				r.Undecided("K-tables", FuncKey(c.Fn)+"#row:?", p.Pos(c.Pos()), "the key given to mutationMap.Set has no static `<kind><separator>` prefix: the row kind cannot be determined")
+				continue
+			}
+			for _, k := range ks {
+				writes = append(writes, c06RowWrite{c.Fn, c.Pos(), k, false, "Set"})
+			}
 		}
-		writes = append(writes, c06RowWrite{c.Fn, c.Pos(), k, false, "Set"})
-	}
-	if uses := p.FuncValueUses(setFn); len(uses) > 0 {
-		r.Undecided("K-tables", FuncKey(uses[0].Parent())+"#row:?", p.Pos(uses[0].Pos()), "mutationMap.Set is used as a function value: its callers cannot be enumerated")
+		if uses := p.FuncValueUses(setFn); len(uses) > 0 {
+			r.Undecided("K-tables", FuncKey(uses[0].Parent())+"#row:?", p.Pos(uses[0].Pos()), "mutationMap.Set is used as a function value: its callers cannot be enumerated")
+		}
 	}
 	for _, fn := range cx.fns {
 		for _, b := range fn.Blocks {
@@ -698,12 +790,14 @@ func (cx *c06Ctx) rowWrites() (writes []c06RowWrite, conduits []CallSite) {
 					if prm, isParam := originValue(x.Key).(*ssa.Parameter); isParam && fn == setFn && prm == fn.Params[1] {
 						continue // the wrapper itself; its callers are enumerated above
 					}
-					k, ok := cx.kindOfKey(x.Key)
+					ks, ok := cx.kindsOfKeyUp(x.Key, 0)
 					if !ok {
 						r.Undecided("K-tables", FuncKey(fn)+"#row:?", p.Pos(x.Pos()), "a key stored into mutationMap.kv has no static `<kind><separator>` prefix")
 						continue
 					}
-					writes = append(writes, c06RowWrite{fn, x.Pos(), k, false, "Set"})
+					for _, k := range ks {
+						writes = append(writes, c06RowWrite{fn, x.Pos(), k, false, "Set"})
+					}
 				case ssa.CallInstruction:
 					c := CallSite{fn, x}
 					switch {
@@ -838,19 +932,18 @@ func c06ScanSet(cx *c06Ctx) {
 	low := int64(-1)
 	bad := ""
 	n := 0
-	for _, c := range CallsIn(fn, true) {
-		if c.Callee() != scanPrefix {
-			continue
-		}
+	// the scans of the effective body (helpers and the literals handed to the group included)
+	for _, o := range cx.effCalls(fn, "call:scanPrefix", func(c CallSite) bool { return c.Callee() == scanPrefix }) {
 		n++
-		arg := c.Args()[len(c.Args())-1]
+		c := CallSite{o.in.Parent(), o.in.(ssa.CallInstruction)}
+		arg, lv := o.up(c.Args()[len(c.Args())-1], o.leafLevel())
 		if pfx, complete := cx.keyPrefix(arg, 0); complete {
 			explicit = append(explicit, pfx)
 			continue
 		}
 		// ranged: the prefix value depends on a Slice of a load of slurpPrefixes
 		found := false
-		DependsOn(arg, func(x ssa.Value) bool {
+		o.dependsUp(arg, lv, func(x ssa.Value) bool {
 			if sl, ok := x.(*ssa.Slice); ok && c06LoadsGlobal(sl.X, cx.gSlurp) {
 				found = true
 				lo := int64(0)
@@ -873,7 +966,10 @@ func c06ScanSet(cx *c06Ctx) {
 			return false
 		})
 		if !found {
-			if c06LoadsGlobal(arg, cx.gSlurp) {
+			if o.dependsUp(arg, lv, func(x ssa.Value) bool {
+				u, ok := x.(*ssa.UnOp)
+				return ok && u.Op == token.MUL && u.X == ssa.Value(cx.gSlurp)
+			}) {
 				if low > 0 {
 					bad = "two different ranged scans of slurpPrefixes"
 				}
@@ -914,22 +1010,43 @@ func c06ScanSet(cx *c06Ctx) {
 }
 
 // c06LiveGate: the live merge in addBlob.
+// c06UpConv resolves v towards the root, looking through conversions on the way.
+func c06UpConv(o c06Occ, v ssa.Value, level int) (ssa.Value, int) {
+	for i := 0; i < 4; i++ {
+		v = c06Unconvert(v)
+		nv, nl := o.up(v, level)
+		if nv == v && nl == level {
+			break
+		}
+		v, level = nv, nl
+	}
+	return c06Unconvert(originValue(c06Unconvert(v))), level
+}
+
+// c06DynCalls: the dynamic (function-valued, non-builtin) calls in the effective body of fn.
+func (cx *c06Ctx) dynCalls(fn *ssa.Function) []c06Occ {
+	return cx.effFind(fn, "dyn-call", func(in ssa.Instruction) bool {
+		call, ok := in.(*ssa.Call)
+		if !ok || call.Call.IsInvoke() || (CallSite{in.Parent(), call}).Callee() != nil {
+			return false
+		}
+		_, isBuiltin := call.Call.Value.(*ssa.Builtin)
+		return !isBuiltin
+	})
+}
+
 func c06LiveGate(cx *c06Ctx) {
 	const rule = "K-tables"
 	p, r := cx.p, cx.r
 	fn := p.Func(c06Rel, "Corpus", "addBlob")
 	construct := FuncKey(fn) + "#merge"
 	n := 0
-	for _, c := range CallsIn(fn, false) {
-		call := c.Value()
-		if call == nil || c.Common().IsInvoke() || c.Callee() != nil {
-			continue
-		}
-		if _, isBuiltin := c.Common().Value.(*ssa.Builtin); isBuiltin {
-			continue
-		}
+	for _, o := range cx.dynCalls(fn) {
+		call := o.in.(*ssa.Call)
+		c := CallSite{o.in.Parent(), call}
 		// dynamic call: must be corpusMergeFunc[kt]
-		fv := originValue(c.Common().Value)
+		fvU, lvF := o.up(call.Call.Value, o.leafLevel())
+		fv := originValue(fvU)
 		lk, ok := fv.(*ssa.Lookup)
 		if !ok || !c06LoadsGlobal(lk.X, cx.gMerge) {
 			continue
@@ -937,14 +1054,16 @@ func c06LiveGate(cx *c06Ctx) {
 		n++
 		bad := ""
 		// kt = typeOfKey(k), k ranged from mm.kv
-		ktCall, ok := originValue(lk.Index).(*ssa.Call)
-		if !ok || (CallSite{fn, ktCall}).Callee() != cx.fnTypeOfKey {
+		ktV, lvK := o.up(lk.Index, lvF)
+		ktCall, ok := originValue(ktV).(*ssa.Call)
+		if !ok || (CallSite{ktCall.Parent(), ktCall}).Callee() != cx.fnTypeOfKey {
 			bad = "the merge function is not looked up by typeOfKey(k)"
 		}
 		var kVal ssa.Value
+		lvk := 0
 		if bad == "" {
-			kVal = ktCall.Call.Args[0]
-			m, idx, isRange := c06RangeMapOf(originValue(kVal))
+			kVal, lvk = c06UpConv(o, ktCall.Call.Args[0], lvK)
+			m, idx, isRange := c06RangeMapOf(kVal)
 			if !isRange || idx != 1 || !cx.isMMKV(m) {
 				bad = "the key whose kind selects the merge function does not come from ranging over mm.kv"
 			}
@@ -954,37 +1073,60 @@ func c06LiveGate(cx *c06Ctx) {
 			if len(args) != 3 {
 				bad = "unexpected merge call shape"
 			} else {
-				ka, va := c06Unconvert(args[1]), c06Unconvert(args[2])
-				mk, ik, okk := c06RangeMapOf(originValue(ka))
-				mv, iv, okv := c06RangeMapOf(originValue(va))
-				if !okk || !okv || ik != 1 || iv != 2 || originValue(ka) != originValue(kVal) || mk != mv {
+				ka, lka := c06UpConv(o, args[1], o.leafLevel())
+				va, lva := c06UpConv(o, args[2], o.leafLevel())
+				mk, ik, okk := c06RangeMapOf(ka)
+				mv, iv, okv := c06RangeMapOf(va)
+				if !okk || !okv || ik != 1 || iv != 2 || ka != kVal || lka != lvk || lva != lvk || mk != mv {
 					bad = "the merge function is not given the same (k, v) pair of mm.kv whose kind selected it: the corpus would merge something other than the committed row"
 				}
 			}
 		}
 		if bad == "" {
-			// gate: slurpedKeyType[kt] true, or fn != nil
+			// gate: slurpedKeyType[kt] true, or fn != nil — at the call or at any call on the way down to it
+			isKT := func(idx ssa.Value, level int) bool {
+				iv, il := o.up(idx, level)
+				ic, isCall := originValue(iv).(*ssa.Call)
+				if !isCall {
+					return false
+				}
+				if ic == ktCall && il == lvK {
+					return true
+				}
+				if (CallSite{ic.Parent(), ic}).Callee() != cx.fnTypeOfKey {
+					return false
+				}
+				k2, l2 := c06UpConv(o, ic.Call.Args[0], il)
+				return k2 == kVal && l2 == lvk
+			}
 			gated := false
-			for _, f := range FactsAt(c.Block()) {
-				cond, val := f.Cond, f.Val
-				for {
-					if u, ok := cond.(*ssa.UnOp); ok && u.Op == token.NOT {
-						cond, val = u.X, !val
-						continue
+			for j := 0; j <= o.leafLevel(); j++ {
+				blk := o.rep(j).Block()
+				for _, f := range FactsAt(blk) {
+					cond, val := f.Cond, f.Val
+					for {
+						if u, ok := cond.(*ssa.UnOp); ok && u.Op == token.NOT {
+							cond, val = u.X, !val
+							continue
+						}
+						break
 					}
-					break
-				}
-				if g, ok := originValue(cond).(*ssa.Lookup); ok && val && c06LoadsGlobal(g.X, cx.gSlurped) && originValue(g.Index) == ssa.Value(ktCall) {
-					gated = true
-				}
-				if ex, ok := cond.(*ssa.Extract); ok && val && ex.Index == 1 {
-					if g, ok := ex.Tuple.(*ssa.Lookup); ok && g.CommaOk && c06LoadsGlobal(g.X, cx.gSlurped) && originValue(g.Index) == ssa.Value(ktCall) {
+					if g, ok := originValue(cond).(*ssa.Lookup); ok && val && c06LoadsGlobal(g.X, cx.gSlurped) && isKT(g.Index, j) {
 						gated = true
+					}
+					if ex, ok := cond.(*ssa.Extract); ok && val && ex.Index == 1 {
+						if g, ok := ex.Tuple.(*ssa.Lookup); ok && g.CommaOk && c06LoadsGlobal(g.X, cx.gSlurped) && isKT(g.Index, j) {
+							gated = true
+						}
 					}
 				}
 			}
-			if k, isNil := NilFact(c.Block(), fv); k && !isNil {
-				gated = true // fn != nil: equals the load set because K-tables (1)+(2) make S == non-nil M
+			// fn != nil: equals the load set because K-tables (1)+(2) make S == non-nil M
+			if k, isNil := NilFact(c.Block(), call.Call.Value); k && !isNil {
+				gated = true
+			}
+			if k, isNil := NilFact(o.rep(lvF).Block(), fvU); k && !isNil {
+				gated = true
 			}
 			if !gated {
 				bad = "the live merge is not gated by slurpedKeyType[kind] (nor by a non-nil merge function): kinds the restart never scans would be merged live, or a nil function called"
@@ -1110,11 +1252,11 @@ func c06ScanDispatch(cx *c06Ctx) {
 	construct := FuncKey(fn) + "#merge"
 	prefixParam := fn.Params[len(fn.Params)-1]
 	n := 0
-	for _, c := range CallsIn(fn, false) {
-		if c.Value() == nil || c.Common().IsInvoke() || c.Callee() != nil {
-			continue
-		}
-		fv := originValue(c.Common().Value)
+	for _, o := range cx.dynCalls(fn) {
+		call := o.in.(*ssa.Call)
+		c := CallSite{o.in.Parent(), call}
+		fvU, lvF := o.up(call.Call.Value, o.leafLevel())
+		fv := originValue(fvU)
 		src := fv
 		if ex, ok := fv.(*ssa.Extract); ok {
 			src = ex.Tuple
@@ -1125,18 +1267,22 @@ func c06ScanDispatch(cx *c06Ctx) {
 		}
 		n++
 		bad := ""
-		kc, ok := originValue(lk.Index).(*ssa.Call)
-		if !ok || (CallSite{fn, kc}).Callee() != cx.fnTypeOfKey || originValue(kc.Call.Args[0]) != ssa.Value(prefixParam) {
+		ktV, lvK := o.up(lk.Index, lvF)
+		kc, ok := originValue(ktV).(*ssa.Call)
+		if !ok || (CallSite{kc.Parent(), kc}).Callee() != cx.fnTypeOfKey {
+			bad = "the load-time merge function is not corpusMergeFunc[typeOfKey(prefix)] of the scanned prefix"
+		} else if pv, pl := o.up(kc.Call.Args[0], lvK); pl != 0 || originValue(pv) != ssa.Value(prefixParam) {
 			bad = "the load-time merge function is not corpusMergeFunc[typeOfKey(prefix)] of the scanned prefix"
 		}
 		if bad == "" {
 			args := c.Args()
 			isIter := func(v ssa.Value, m string) bool {
-				call, ok := originValue(v).(*ssa.Call)
+				uv, _ := o.up(v, o.leafLevel())
+				call, ok := originValue(uv).(*ssa.Call)
 				if !ok {
 					return false
 				}
-				cs := CallSite{fn, call}
+				cs := CallSite{call.Parent(), call}
 				return cs.Common().IsInvoke() && cs.MethodName() == m && IsNamed(cs.RecvType(), "perkeep.org/pkg/sorted", "Iterator")
 			}
 			if len(args) != 3 || !isIter(args[1], "KeyBytes") && !isIter(args[1], "Key") || !isIter(args[2], "ValueBytes") && !isIter(args[2], "Value") {
@@ -1153,13 +1299,14 @@ func c06ScanDispatch(cx *c06Ctx) {
 // ---------------------------------------------------------------------------
 // K-owner
 
-// c06NeedsWriters: who may write Index.needs / neededBy / readyReindex.
+// c06NeedsWriters: who may remove from / rewrite Index.needs and neededBy, and
+// write readyReindex (the adds are decided by role, see K-owner B). A function
+// literal belongs to the function it is written in; an unexported helper all of
+// whose callers are listed functions is accepted too.
 var c06NeedsWriters = map[string]string{
 	"pkg/index.New": "constructor: empty maps on the freshly allocated Index (re-checked: the object is allocated in New)",
-	"pkg/index.(*Index).noteNeededMemoryLocked": "the only adder (re-checked: called from the 'missing' row loader, or after the matching 'missing' row was written successfully)",
-	"pkg/index.(*Index).noteBlobIndexedLocked":  "a dependency arrived: moves the waiters to readyReindex and drops the edge (rows follow in removeAllMissingEdges when the waiter is re-indexed)",
-	"pkg/index.(*Index).indexReadyBlobs":        "re-queues blobs whose out-of-order indexing failed, under the index lock",
-	"pkg/index.(*Index).indexReadyBlobs$1":      "pops one entry of the ready queue under the index lock",
+	"pkg/index.(*Index).noteBlobIndexedLocked": "a dependency arrived: moves the waiters to readyReindex and drops the edge (rows follow in removeAllMissingEdges when the waiter is re-indexed)",
+	"pkg/index.(*Index).indexReadyBlobs":       "pops the ready queue and re-queues blobs whose out-of-order indexing failed, under the index lock (its function literals included)",
 }
 
 // c06StoreSwapExceptions: functions that may replace Index.s on a live Index.
@@ -1175,25 +1322,86 @@ var c06CorpusScratch = map[string]string{
 	"ss":        "scratch slice",
 }
 
-// queriesKind: fn (not deep) opens an iterator over rows of key type g via queryPrefix.
-func (cx *c06Ctx) queriesKind(fn *ssa.Function, g *ssa.Global) []CallSite {
-	var out []CallSite
-	for _, c := range CallsIn(fn, false) {
-		f := c.Callee()
-		if f == nil || f.Pkg != cx.pkg || f.Name() != "queryPrefix" {
-			continue
+// isRowQuery: c opens an iterator over the rows of key type g: a call that is
+// given the keyType variable and returns a sorted.Iterator (queryPrefix and
+// friends, recognised by what they take and return), or KeyValue.Find from a
+// start key of that kind.
+func (cx *c06Ctx) isRowQuery(c CallSite, g *ssa.Global) bool {
+	if c06IsKVInvoke(c, "Find") {
+		if k, ok := cx.kindOfKey(c.Args()[1]); ok && k.typ == cx.keyName[g] {
+			return true
 		}
-		for _, a := range c.Args() {
-			if kg, ok := cx.keyGlobalOf(a); ok && kg == g {
-				out = append(out, c)
+		return false
+	}
+	f := c.Callee()
+	if f == nil || f.Pkg != cx.pkg {
+		return false
+	}
+	res := f.Signature.Results()
+	if res.Len() != 1 || !IsNamed(res.At(0).Type(), "perkeep.org/pkg/sorted", "Iterator") {
+		return false
+	}
+	for _, a := range c.Args() {
+		if kg, ok := cx.keyGlobalOf(a); ok && kg == g {
+			return true
+		}
+	}
+	return false
+}
+
+// rowQueries: the queries of g's rows in the effective body of fn, not counting
+// helpers for which skip holds (functions that play the role themselves).
+func (cx *c06Ctx) rowQueries(fn *ssa.Function, g *ssa.Global, skip func(*ssa.Function) bool) []c06Occ {
+	var out []c06Occ
+occs:
+	for _, o := range cx.effCalls(fn, "q:"+cx.keyName[g], func(c CallSite) bool { return cx.isRowQuery(c, g) }) {
+		for _, l := range o.chain {
+			if skip != nil && skip(l.callee) {
+				continue occs
 			}
 		}
+		out = append(out, o)
 	}
 	return out
 }
 
+// dependsUp: v (a value of the function at level) depends on a value satisfying
+// target, parameters of statically called helpers standing for the arguments.
+func (o c06Occ) dependsUp(v ssa.Value, level int, target func(ssa.Value) bool) bool {
+	return DependsOn(v, func(x ssa.Value) bool {
+		if target(x) {
+			return true
+		}
+		prm, ok := x.(*ssa.Parameter)
+		if !ok {
+			return false
+		}
+		lv := -1
+		for j := level; j >= 1; j-- {
+			if o.fnAt(j) == prm.Parent() {
+				lv = j
+				break
+			}
+		}
+		if lv < 1 {
+			return false
+		}
+		l := o.chain[lv-1]
+		if l.passed {
+			return false
+		}
+		args := (CallSite{o.fnAt(lv - 1), l.call.(ssa.CallInstruction)}).Args()
+		for i, q := range l.callee.Params {
+			if q == prm && i < len(args) {
+				return o.dependsUp(args[i], lv-1, target)
+			}
+		}
+		return false
+	})
+}
+
 // afterWipe: w stores a freshly constructed empty cache and is dominated by a
-// successful sorted.Wiper.Wipe() in the same function.
+// successful sorted.Wiper.Wipe() in the (effective body of the) same function.
 func (cx *c06Ctx) afterWipe(fn *ssa.Function, w c06Write, ctors map[*ssa.Function]bool) bool {
 	st, ok := w.in.(*ssa.Store)
 	if !ok {
@@ -1203,18 +1411,61 @@ func (cx *c06Ctx) afterWipe(fn *ssa.Function, w c06Write, ctors map[*ssa.Functio
 	if !ok || !ctors[(CallSite{fn, call}).Callee()] {
 		return false
 	}
-	for _, c := range CallsIn(fn, false) {
+	wipes := cx.effCalls(fn, "call:Wipe", func(c CallSite) bool {
 		cc := c.Common()
-		if cc.IsInvoke() && cc.Method.Name() == "Wipe" && IsNamed(c.RecvType(), "perkeep.org/pkg/sorted", "Wiper") && c.Value() != nil {
-			if ok, _ := SuccessDominates(c.Value(), w.in); ok {
-				return true
-			}
-		}
-	}
-	return false
+		return cc.IsInvoke() && cc.Method.Name() == "Wipe" && IsNamed(c.RecvType(), "perkeep.org/pkg/sorted", "Wiper") && c.Value() != nil
+	})
+	ok, _, _ = cx.anyBefore(wipes, c06Occ{root: fn, in: w.in}, nil, true)
+	return ok
 }
 
 func c06LastInstr(b *ssa.BasicBlock) ssa.Instruction { return b.Instrs[len(b.Instrs)-1] }
+
+type c06Grp struct {
+	assigns, mapw []c06Write
+}
+
+// c06Transplant: the writes of helper h seen from its call site cs in a caller:
+// they happen at the call, on the object the argument denotes.
+func c06Transplant(g *c06Grp, h *ssa.Function, cs CallSite) *c06Grp {
+	out := &c06Grp{}
+	args := cs.Args()
+	move := func(w c06Write) c06Write {
+		w.fn, w.in = cs.Fn, cs.Instr
+		if prm, ok := originValue(w.base).(*ssa.Parameter); ok {
+			for i, q := range h.Params {
+				if q == prm && i < len(args) {
+					w.base = args[i]
+				}
+			}
+		}
+		return w
+	}
+	for _, w := range g.assigns {
+		out.assigns = append(out.assigns, move(w))
+	}
+	for _, w := range g.mapw {
+		out.mapw = append(out.mapw, move(w))
+	}
+	return out
+}
+
+// c06AppendOne: v is append(old, x): returns old and x.
+func c06AppendOne(v ssa.Value) (old, elem ssa.Value, ok bool) {
+	call, isCall := originValue(v).(*ssa.Call)
+	if !isCall {
+		return nil, nil, false
+	}
+	bi, isB := call.Call.Value.(*ssa.Builtin)
+	if !isB || bi.Name() != "append" || len(call.Call.Args) != 2 {
+		return nil, nil, false
+	}
+	elems := c06VarargElems(call.Call.Args[1])
+	if len(elems) != 1 {
+		return nil, nil, false
+	}
+	return call.Call.Args[0], elems[0], true
+}
 
 func c06RuleOwner(cx *c06Ctx) {
 	const rule = "K-owner"
@@ -1225,35 +1476,47 @@ func c06RuleOwner(cx *c06Ctx) {
 		brokenf("anchor unresolved: keyDeleted is not a keyType with a constant name")
 	}
 	ws := c06Writes(cx.fns, map[*types.Named]bool{cx.tIndex: true, cx.tDelCache: true, cx.tCorpus: true, cx.tMM: true})
+	isCB := func(c CallSite) bool { return c06IsKVInvoke(c, "CommitBatch") && c.Value() != nil }
+	fromMMDeletes := func(v ssa.Value) bool {
+		n, f, _, ok := c06LoadedField(v)
+		return ok && n == cx.tMM && f == "deletes"
+	}
 
 	// ---- A. Index.deletes and deletionCache.m
-	type grp struct {
-		assigns, mapw []c06Write
-	}
-	groups := map[*ssa.Function]*grp{}
+	groups := map[*ssa.Function]*c06Grp{}
 	var order []*ssa.Function
-	get := func(fn *ssa.Function) *grp {
+	get := func(fn *ssa.Function) *c06Grp {
 		if groups[fn] == nil {
-			groups[fn] = &grp{}
+			groups[fn] = &c06Grp{}
 			order = append(order, fn)
 		}
 		return groups[fn]
 	}
+	isWriteA := map[ssa.Instruction]bool{}
 	for _, w := range ws {
 		switch {
 		case w.typ == cx.tIndex && w.field == "deletes":
 			g := get(w.fn)
 			g.assigns = append(g.assigns, w)
+			isWriteA[w.in] = true
 		case w.typ == cx.tDelCache && w.field == "m":
 			g := get(w.fn)
 			g.mapw = append(g.mapw, w)
+			isWriteA[w.in] = true
 		}
 	}
-	loaders := map[*ssa.Function]bool{}
-	for _, fn := range order {
-		if len(cx.queriesKind(fn, gDeleted)) > 0 {
-			loaders[fn] = true
+	touchA := cx.effReach("w:index.deletes", func(in ssa.Instruction) bool { return isWriteA[in] })
+	isWriterA := func(f *ssa.Function) bool { return touchA.any[f] }
+	delQueries := func(fn *ssa.Function) []c06Occ { return cx.rowQueries(fn, gDeleted, isWriterA) }
+	// loader: reads the 'deleted' rows itself (or through helpers that do not write the cache) and fills the cache
+	loaderMemo := map[*ssa.Function]bool{}
+	isLoader := func(fn *ssa.Function) bool {
+		if v, ok := loaderMemo[fn]; ok {
+			return v
 		}
+		v := touchA.any[fn] && len(delQueries(fn)) > 0
+		loaderMemo[fn] = v
+		return v
 	}
 	// constructors of the cache object itself (newDeletionCache): write only a fresh deletionCache
 	ctors := map[*ssa.Function]bool{}
@@ -1272,42 +1535,35 @@ func c06RuleOwner(cx *c06Ctx) {
 			ctors[fn] = true
 		}
 	}
-	nA := 0
-	for _, fn := range order {
-		g := groups[fn]
-		nA++
-		construct := FuncKey(fn) + "#deletes"
-		site := p.Pos(fn.Pos())
+	// roleA decides whether fn, with the writes g (its own, plus those of helpers
+	// attributed to it), plays one of the accepted roles.
+	var roleA func(fn *ssa.Function, g *c06Grp, depth int) (ok bool, okDetail, bad string, badPos token.Pos)
+	roleA = func(fn *ssa.Function, g *c06Grp, depth int) (bool, string, string, token.Pos) {
 		allFresh := true
 		for _, w := range append(append([]c06Write{}, g.assigns...), g.mapw...) {
-			if !c06Fresh(w.base, fn) {
-				allFresh = false
-			}
-			if w.kind == "addr-escape" {
+			if !c06Fresh(w.base, fn) || w.kind == "addr-escape" {
 				allFresh = false
 			}
 		}
+		bad, okDetail := "", ""
+		var badPos token.Pos
 		switch {
 		case allFresh:
 			// constructor role: must not wipe what a loader called earlier in the same function filled
-			bad := ""
-			for _, c := range CallsIn(fn, false) {
-				if f := c.Callee(); f != nil && loaders[f] {
-					after := ReachableFrom(c.Instr, nil)
-					for _, w := range g.assigns {
-						if after[w.in] {
-							bad = fmt.Sprintf("the deletes cache is re-assigned after %s loaded it from the 'deleted' rows", FuncKey(f))
-						}
+			for _, lo := range cx.effCalls(fn, "", func(c CallSite) bool { f := c.Callee(); return f != nil && isLoader(f) }) {
+				after := ReachableFrom(lo.top(), nil)
+				for _, w := range g.assigns {
+					if after[w.in] {
+						bad = fmt.Sprintf("the deletes cache is re-assigned after %s loaded it from the 'deleted' rows", FuncKey((CallSite{lo.in.Parent(), lo.in.(ssa.CallInstruction)}).Callee()))
 					}
 				}
 			}
-			r.Check(bad == "", rule, construct, site, "constructor: writes only the object it allocates, never after a loader ran", bad)
-		case loaders[fn]:
-			bad := ""
-			qs := cx.queriesKind(fn, gDeleted)
+			okDetail = "constructor: writes only the object it allocates, never after a loader ran"
+		case len(delQueries(fn)) > 0:
+			qs := delQueries(fn)
 			for _, w := range g.assigns {
 				for _, q := range qs {
-					if !Precedes(w.in, q.Instr) {
+					if ok, _ := cx.before(c06Occ{root: fn, in: w.in}, q, nil, false); !ok {
 						bad = "the loader re-assigns x.deletes after (or beside) opening the 'deleted' row iterator: loaded entries can be dropped"
 					}
 				}
@@ -1317,10 +1573,9 @@ func c06RuleOwner(cx *c06Ctx) {
 					bad = "the loader removes entries from the deletes cache"
 				}
 			}
-			r.Check(bad == "", rule, construct, site, "loader: resets the cache before reading the 'deleted' rows, then only adds", bad)
+			okDetail = "loader: resets the cache before reading the 'deleted' rows, then only adds"
 		case len(g.assigns) == 0:
 			// live updater: every caller after a successful CommitBatch, with a claim from mm.deletes
-			bad := ""
 			callers := p.StaticCallers(fn)
 			if len(callers) == 0 {
 				bad = "no static caller found for this writer of the deletes cache"
@@ -1334,36 +1589,38 @@ func c06RuleOwner(cx *c06Ctx) {
 				}
 			}
 			for _, c := range callers {
-				okCommit := false
-				for _, cb := range CallsIn(c.Fn, false) {
-					if c06IsKVInvoke(cb, "CommitBatch") && cb.Value() != nil {
-						if ok, _ := SuccessDominates(cb.Value(), c.Instr); ok {
-							okCommit = true
-						}
-					}
+				if c.Value() == nil {
+					bad = fmt.Sprintf("called from %s with go/defer: not ordered after the commit", FuncKey(c.Fn))
+					continue
+				}
+				okCommit, fromMM := false, false
+				if ok, _ := cx.climb(c06Occ{root: c.Fn, in: c.Instr}, 0, func(occ c06Occ) (bool, string) {
+					ok, _, why := cx.anyBefore(cx.effCalls(occ.root, "call:CommitBatch", isCB), occ, nil, true)
+					return ok, why
+				}); ok {
+					okCommit = true
 				}
 				if !okCommit {
 					bad = fmt.Sprintf("called from %s where no successful CommitBatch dominates the call: the cache would hold deletions whose rows were not persisted", FuncKey(c.Fn))
 					continue
 				}
-				fromMM := false
-				for _, a := range c.Args()[1:] {
-					if DependsOn(a, func(v ssa.Value) bool {
-						n, f, _, ok := c06LoadedField(v)
-						return ok && n == cx.tMM && f == "deletes"
-					}) {
-						fromMM = true
+				if ok, _ := cx.climb(c06Occ{root: c.Fn, in: c.Instr}, 0, func(occ c06Occ) (bool, string) {
+					for _, a := range c.Args()[1:] {
+						if occ.dependsUp(a, occ.leafLevel(), fromMMDeletes) {
+							return true, ""
+						}
 					}
+					return false, ""
+				}); ok {
+					fromMM = true
 				}
 				if !fromMM {
 					bad = fmt.Sprintf("called from %s with a claim that is not taken from mm.deletes (the claims whose 'deleted' rows were just committed)", FuncKey(c.Fn))
 				}
 			}
-			r.Check(bad == "", rule, construct, site, "live updater: only adds, every call after a successful CommitBatch with a claim of mm.deletes", bad)
+			okDetail = "live updater: only adds, every call after a successful CommitBatch with a claim of mm.deletes"
 		default:
 			// last acceptable role: an empty cache installed right after the rows were wiped
-			bad := ""
-			var badPos token.Pos
 			for _, w := range g.assigns {
 				if !cx.afterWipe(fn, w, ctors) {
 					bad = "assigns Index.deletes on an existing Index without being the loader of the 'deleted' rows (and not right after a successful Wipe of the rows): a cache that New loaded from the rows is replaced (after a restart IsDeleted forgets every deletion)"
@@ -1374,59 +1631,112 @@ func c06RuleOwner(cx *c06Ctx) {
 				bad = "both re-assigns and mutates the deletes cache without being its loader"
 				badPos = g.mapw[0].in.Pos()
 			}
-			if bad != "" {
-				r.Violation(rule, construct, p.Pos(badPos), bad)
-			} else {
-				r.OK(rule, construct, site, "installs an empty cache only after the rows were wiped successfully")
-			}
+			okDetail = "installs an empty cache only after the rows were wiped successfully"
 		}
+		if bad == "" {
+			return true, okDetail, "", 0
+		}
+		// a helper extracted from accepted functions: its writes are theirs
+		if sites, ok := cx.enumerableCallers(fn); ok && depth < c06EffDepth-1 {
+			var served []string
+			for _, cs := range sites {
+				if _, plain := cs.Instr.(*ssa.Call); !plain {
+					return false, "", bad, badPos
+				}
+				g2 := c06Transplant(g, fn, cs)
+				if own := groups[cs.Fn]; own != nil {
+					g2.assigns = append(g2.assigns, own.assigns...)
+					g2.mapw = append(g2.mapw, own.mapw...)
+				}
+				ok2, d2, _, _ := roleA(cs.Fn, g2, depth+1)
+				if !ok2 {
+					return false, "", bad, badPos
+				}
+				served = append(served, FuncKey(cs.Fn)+" ("+d2+")")
+			}
+			return true, "helper whose writes belong to its callers, each accepted in its own role: " + strings.Join(c06Dedupe(served), "; "), "", 0
+		}
+		return false, "", bad, badPos
+	}
+	nA := 0
+	for _, fn := range order {
+		nA++
+		construct := FuncKey(fn) + "#deletes"
+		ok, okDetail, bad, badPos := roleA(fn, groups[fn], 0)
+		site := p.Pos(fn.Pos())
+		if !ok && badPos != 0 {
+			site = p.Pos(badPos)
+		}
+		r.Check(ok, rule, construct, site, okDetail, bad)
+	}
+
+	// ---- B (preliminaries). adds to Index.needs / neededBy: x.f[k] = append(x.f[k], v)
+	isNeedsField := func(f string) bool { return f == "needs" || f == "neededBy" }
+	addForm := func(w c06Write) (key, elem ssa.Value, ok bool) {
+		mu, isMU := w.in.(*ssa.MapUpdate)
+		if !isMU || w.typ != cx.tIndex || !isNeedsField(w.field) {
+			return nil, nil, false
+		}
+		old, el, isApp := c06AppendOne(mu.Value)
+		if !isApp {
+			return nil, nil, false
+		}
+		lk, isLk := originValue(old).(*ssa.Lookup)
+		if !isLk || lk.CommaOk {
+			return nil, nil, false
+		}
+		n, f, base, isF := c06LoadedField(lk.X)
+		if !isF || n != cx.tIndex || f != w.field || !c06SamePlace(base, w.base) || !c06SamePlace(lk.Index, mu.Key) {
+			return nil, nil, false
+		}
+		return mu.Key, el, true
+	}
+	isAddWrite := map[ssa.Instruction]bool{}
+	addFns := map[*ssa.Function][]c06Write{}
+	var addOrder []*ssa.Function
+	for _, w := range ws {
+		if _, _, ok := addForm(w); ok && !c06Fresh(w.base, w.fn) {
+			isAddWrite[w.in] = true
+			if addFns[w.fn] == nil {
+				addOrder = append(addOrder, w.fn)
+			}
+			addFns[w.fn] = append(addFns[w.fn], w)
+		}
+	}
+	reachAdd := cx.effReach("w:needs-add", func(in ssa.Instruction) bool { return isAddWrite[in] })
+	missQueries := func(fn *ssa.Function) []c06Occ {
+		return cx.rowQueries(fn, gMissing, func(h *ssa.Function) bool { return reachAdd.any[h] })
+	}
+	// loader of the 'missing' rows: reads them and adds the edges (itself or through helpers)
+	needsLoaderMemo := map[*ssa.Function]bool{}
+	isNeedsLoader := func(fn *ssa.Function) bool {
+		if v, ok := needsLoaderMemo[fn]; ok {
+			return v
+		}
+		v := fn != nil && fn.Parent() == nil && reachAdd.any[fn] && len(missQueries(fn)) > 0
+		needsLoaderMemo[fn] = v
+		return v
 	}
 
 	// ---- A'. New: success returns have both caches loaded (or the reindex branch)
 	newFn := p.Func(c06Rel, "", "New")
 	gReindex := c06Global(cx.pkg, "aboutToReindex")
-	needsLoaders := map[*ssa.Function]bool{}
-	for _, fn := range cx.fns {
-		if len(cx.queriesKind(fn, gMissing)) > 0 && fn.Parent() == nil {
-			for _, w := range ws {
-				_ = w
-			}
-			needsLoaders[fn] = true
-		}
-	}
-	adder := p.Func(c06Rel, "Index", "noteNeededMemoryLocked")
-	for fn := range needsLoaders {
-		calls := false
-		for _, c := range CallsIn(fn, true) {
-			if c.Callee() == adder {
-				calls = true
-			}
-		}
-		if !calls {
-			delete(needsLoaders, fn)
-		}
-	}
 	for _, nr := range MaybeNilErrorReturns(newFn) {
 		nA++
 		site := c06LastInstr(nr.From)
 		construct := FuncKey(newFn) + "#open-loads-caches"
-		domBy := func(set map[*ssa.Function]bool) bool {
-			for _, c := range CallsIn(newFn, false) {
-				if f := c.Callee(); f != nil && set[f] && c.Value() != nil {
-					if ok, _ := SuccessDominates(c.Value(), site); ok {
-						return true
-					}
-				}
-			}
-			return false
+		domBy := func(is func(*ssa.Function) bool) bool {
+			occs := cx.effCalls(newFn, "", func(c CallSite) bool { f := c.Callee(); return f != nil && c.Value() != nil && is(f) })
+			ok, _, _ := cx.anyBefore(occs, c06Occ{root: newFn, in: site}, nil, true)
+			return ok
 		}
-		if domBy(loaders) && domBy(needsLoaders) {
+		if domBy(isLoader) && domBy(isNeedsLoader) {
 			r.OK(rule, construct, p.Pos(nr.Ret.Pos()), "success return dominated by successful loads of the 'deleted' rows and of the 'missing' rows")
 			continue
 		}
 		reindex := false
 		for _, f := range FactsAt(nr.From) {
-			if u, ok := f.Cond.(*ssa.UnOp); ok && u.Op == token.MUL && u.X == ssa.Value(gReindex) && f.Val {
+			if u, ok := originValue(f.Cond).(*ssa.UnOp); ok && u.Op == token.MUL && u.X == ssa.Value(gReindex) && f.Val {
 				reindex = true
 			}
 		}
@@ -1452,9 +1762,13 @@ func c06RuleOwner(cx *c06Ctx) {
 	// ---- B. needs / neededBy / readyReindex
 	nB := 0
 	seenB := map[string]bool{}
+	inTable := func(f *ssa.Function) bool { _, ok := c06NeedsWriters[FuncKey(f)]; return ok }
 	for _, w := range ws {
 		if w.typ != cx.tIndex || !(w.field == "needs" || w.field == "neededBy" || w.field == "readyReindex") {
 			continue
+		}
+		if isAddWrite[w.in] {
+			continue // adds are decided by role below
 		}
 		key := FuncKey(w.fn)
 		construct := key + "#" + w.field
@@ -1463,54 +1777,112 @@ func c06RuleOwner(cx *c06Ctx) {
 		}
 		seenB[construct] = true
 		nB++
-		why, ok := c06NeedsWriters[key]
+		tkey := FuncKey(TopFunc(w.fn)) // a literal belongs to the function it is written in
+		why, ok := c06NeedsWriters[tkey]
 		if !ok {
-			r.Violation(rule, construct, p.Pos(w.in.Pos()), fmt.Sprintf("writes Index.%s but is not one of the functions that keep it in step with the 'missing' rows (%s)", w.field, strings.Join(c06SortedKeys(c06NeedsWriters), ", ")))
+			if owners, isHelper := cx.helperOf(w.fn, inTable, 0); isHelper {
+				r.OK(rule, construct, p.Pos(w.in.Pos()), "helper all of whose callers are accepted writers: "+c06FuncKeys(owners))
+				continue
+			}
+			r.Violation(rule, construct, p.Pos(w.in.Pos()), fmt.Sprintf("writes Index.%s but is not one of the functions that keep it in step with the 'missing' rows (%s), nor a helper called only by them", w.field, strings.Join(c06SortedKeys(c06NeedsWriters), ", ")))
 			continue
 		}
-		if key == "pkg/index.New" && !c06Fresh(w.base, w.fn) {
+		if tkey == "pkg/index.New" && !c06Fresh(w.base, w.fn) {
 			r.Violation(rule, construct, p.Pos(w.in.Pos()), "New writes the map of an Index it did not allocate")
 			continue
 		}
 		r.OKTable(rule, construct, p.Pos(w.in.Pos()), why)
 	}
-	// the adder's callers
-	for _, c := range p.StaticCallers(adder) {
-		nB++
-		construct := FuncKey(c.Fn) + "#noteNeededMemoryLocked"
-		if needsLoaders[TopFunc(c.Fn)] {
-			r.OK(rule, construct, p.Pos(c.Pos()), "called while iterating the 'missing' rows (loader)")
-			continue
+	// the adds: justified where they stand (the 'missing' row loader, or after the
+	// matching row was written successfully), or else at every call site of the
+	// function that makes them (the in-memory adder), climbing through helpers
+	isMissingSet := func(c CallSite) bool {
+		if !c06IsKVInvoke(c, "Set") || c.Value() == nil {
+			return false
 		}
-		okRow := false
-		detail := "no successful write of the matching 'missing' row dominates the in-memory update: after a restart the dependency is forgotten (or remembered only in memory)"
-		for _, s := range CallsIn(c.Fn, false) {
-			if !c06IsKVInvoke(s, "Set") || s.Value() == nil {
-				continue
+		kc, ok := originValue(c.Args()[1]).(*ssa.Call)
+		if !ok {
+			return false
+		}
+		kcs := CallSite{kc.Parent(), kc}
+		g, ok := cx.keyGlobalOf(kcs.Args()[0])
+		return ok && g == gMissing && kcs.Callee() != nil && NamedOf(kcs.Callee().Signature.Recv().Type()) == cx.tKeyType
+	}
+	justified := func(w c06Write) func(occ c06Occ) (bool, string) {
+		key, elem, _ := addForm(w)
+		return func(occ c06Occ) (bool, string) {
+			top := TopFunc(occ.root)
+			if isNeedsLoader(top) {
+				if occ.root != top {
+					return true, ""
+				}
+				if ok, _, _ := cx.anyBefore(missQueries(top), occ, nil, false); ok {
+					return true, ""
+				}
 			}
-			kc, ok := originValue(s.Args()[1]).(*ssa.Call)
-			if !ok {
-				continue
-			}
-			kcs := CallSite{c.Fn, kc}
-			if g, ok := cx.keyGlobalOf(kcs.Args()[0]); !ok || g != gMissing || kcs.Callee() == nil || kcs.Callee().Name() != "Key" {
-				continue
-			}
-			if ok, _ := SuccessDominates(s.Value(), c.Instr); !ok {
-				continue
-			}
-			parts := c06VarargElems(kc.Call.Args[len(kc.Call.Args)-1])
-			args := c.Args()
-			if len(parts) == 2 && len(args) == 3 && sameOrigin(parts[0], args[1]) && sameOrigin(parts[1], args[2]) {
-				okRow = true
-			} else {
+			detail := "no successful write of the matching 'missing' row dominates the in-memory update: after a restart the dependency is forgotten (or remembered only in memory)"
+			for _, s := range cx.effCalls(occ.root, "set:missing", isMissingSet) {
+				if ok, _ := cx.before(s, occ, nil, true); !ok {
+					continue
+				}
+				sc := CallSite{s.in.Parent(), s.in.(ssa.CallInstruction)}
+				kc := originValue(sc.Args()[1]).(*ssa.Call)
+				parts := c06VarargElems(kc.Call.Args[len(kc.Call.Args)-1])
+				if len(parts) != 2 {
+					detail = "cannot read the (have, missing) pair of the 'missing' row key"
+					continue
+				}
+				have, missing := s.leafVal(parts[0]), s.leafVal(parts[1])
+				k, e := occ.leafVal(key), occ.leafVal(elem)
+				if w.field == "neededBy" {
+					have, missing = missing, have
+				}
+				if c06SameVal(k, have) && c06SameVal(e, missing) {
+					return true, ""
+				}
 				detail = "the 'missing' row written before the in-memory update is not keyed by the same (have, missing) pair"
 			}
+			return false, detail
 		}
-		r.Check(okRow, rule, construct, p.Pos(c.Pos()), "in-memory edge added only after the same 'missing|have|missing' row was written successfully", detail)
 	}
-	if uses := p.FuncValueUses(adder); len(uses) > 0 {
-		r.Undecided(rule, FuncKey(adder)+"#value", p.Pos(uses[0].Pos()), "noteNeededMemoryLocked is used as a function value")
+	for _, fn := range addOrder {
+		local := true
+		for _, w := range addFns[fn] {
+			if ok, _ := justified(w)(c06Occ{root: fn, in: w.in}); !ok {
+				local = false
+			}
+		}
+		if local {
+			nB++
+			r.OK(rule, FuncKey(fn)+"#needs-add", p.Pos(fn.Pos()), "adds dependency edges while loading the 'missing' rows, or only after the same 'missing|have|missing' row was written successfully")
+			continue
+		}
+		// the in-memory adder: every call site must be justified
+		sites, enumerable := cx.enumerableCallers(fn)
+		if !enumerable {
+			nB++
+			r.Violation(rule, FuncKey(fn)+"#needs-add", p.Pos(fn.Pos()), "adds edges to Index.needs/neededBy neither while loading the 'missing' rows nor after a successful write of the matching row, and its callers cannot be enumerated (exported, used as a value, or never called): the in-memory dependency maps and the 'missing' rows diverge")
+			continue
+		}
+		for _, c := range sites {
+			nB++
+			construct := FuncKey(c.Fn) + "#" + fn.Name()
+			_, plain := c.Instr.(*ssa.Call)
+			okAll, detail := plain, "the in-memory adder is started with go/defer"
+			if plain {
+				for _, w := range addFns[fn] {
+					occ := c06Occ{root: c.Fn, in: w.in, chain: []c06Link{{call: c.Instr, callee: fn, direct: true}}}
+					if ok, why := cx.climb(occ, 1, justified(w)); !ok {
+						okAll, detail = false, why
+					}
+				}
+			}
+			okDetail := "in-memory edge added only after the same 'missing|have|missing' row was written successfully"
+			if isNeedsLoader(TopFunc(c.Fn)) {
+				okDetail = "called while iterating the 'missing' rows (loader)"
+			}
+			r.Check(okAll, rule, construct, p.Pos(c.Pos()), okDetail, detail)
+		}
 	}
 
 	// ---- C. Corpus fields
@@ -1519,6 +1891,57 @@ func c06RuleOwner(cx *c06Ctx) {
 	// ---- C'. Corpus.deletes has the same three roles as the index cache
 	scanFn := p.Func(c06Rel, "Corpus", "scanFromStorage")
 	corpusLoaders := map[*ssa.Function]bool{}
+	isWriteCD := map[ssa.Instruction]bool{}
+	for _, w := range ws {
+		if w.typ == cx.tCorpus && w.field == "deletes" && !c06Fresh(w.base, w.fn) {
+			isWriteCD[w.in] = true
+		}
+	}
+	touchCD := cx.effReach("w:corpus.deletes", func(in ssa.Instruction) bool { return isWriteCD[in] })
+	isWriterCD := func(f *ssa.Function) bool { return touchCD.any[f] }
+	var roleCD func(fn *ssa.Function, depth int) (bool, string, string)
+	roleCD = func(fn *ssa.Function, depth int) (bool, string, string) {
+		if len(cx.rowQueries(fn, gDeleted, isWriterCD)) > 0 {
+			corpusLoaders[fn] = true
+			return true, "loader: fills Corpus.deletes from the 'deleted' rows", ""
+		}
+		bad := ""
+		callers := p.StaticCallers(fn)
+		if len(callers) == 0 || len(p.FuncValueUses(fn)) > 0 {
+			bad = "callers of this writer of Corpus.deletes cannot be enumerated"
+		}
+		for _, c := range callers {
+			ok, _ := cx.climb(c06Occ{root: c.Fn, in: c.Instr}, 0, func(occ c06Occ) (bool, string) {
+				for _, a := range c.Args()[1:] {
+					if occ.dependsUp(a, occ.leafLevel(), fromMMDeletes) {
+						return true, ""
+					}
+				}
+				return false, ""
+			})
+			if !ok {
+				bad = fmt.Sprintf("called from %s with a claim that is not taken from mm.deletes (the claims whose 'deleted' rows were committed)", FuncKey(c.Fn))
+			}
+		}
+		if bad == "" {
+			return true, "live updater: every caller passes a claim of mm.deletes", ""
+		}
+		if sites, ok := cx.enumerableCallers(fn); ok && depth < c06EffDepth-1 {
+			var served []string
+			for _, cs := range sites {
+				if _, plain := cs.Instr.(*ssa.Call); !plain {
+					return false, "", bad
+				}
+				ok2, d2, _ := roleCD(cs.Fn, depth+1)
+				if !ok2 {
+					return false, "", bad
+				}
+				served = append(served, FuncKey(cs.Fn)+" ("+d2+")")
+			}
+			return true, "helper whose writes belong to its callers, each accepted in its own role: " + strings.Join(c06Dedupe(served), "; "), ""
+		}
+		return false, "", bad
+	}
 	seenCD := map[*ssa.Function]bool{}
 	for _, w := range ws {
 		if w.typ != cx.tCorpus || w.field != "deletes" || seenCD[w.fn] {
@@ -1531,48 +1954,15 @@ func c06RuleOwner(cx *c06Ctx) {
 			continue // constructor, reported under #corpus
 		}
 		nC++
-		if len(cx.queriesKind(fn, gDeleted)) > 0 {
-			corpusLoaders[fn] = true
-			r.OK(rule, construct, p.Pos(fn.Pos()), "loader: fills Corpus.deletes from the 'deleted' rows")
-			continue
-		}
-		bad := ""
-		callers := p.StaticCallers(fn)
-		if len(callers) == 0 || len(p.FuncValueUses(fn)) > 0 {
-			bad = "callers of this writer of Corpus.deletes cannot be enumerated"
-		}
-		for _, c := range callers {
-			fromMM := false
-			for _, a := range c.Args()[1:] {
-				if DependsOn(a, func(v ssa.Value) bool {
-					n, f, _, ok := c06LoadedField(v)
-					return ok && n == cx.tMM && f == "deletes"
-				}) {
-					fromMM = true
-				}
-			}
-			if !fromMM {
-				bad = fmt.Sprintf("called from %s with a claim that is not taken from mm.deletes (the claims whose 'deleted' rows were committed)", FuncKey(c.Fn))
-			}
-		}
-		r.Check(bad == "", rule, construct, p.Pos(fn.Pos()), "live updater: every caller passes a claim of mm.deletes", bad)
+		ok, okDetail, bad := roleCD(fn, 0)
+		r.Check(ok, rule, construct, p.Pos(fn.Pos()), okDetail, bad)
 	}
 	{
 		nC++
 		bad := ""
+		loads := cx.effCalls(scanFn, "", func(c CallSite) bool { f := c.Callee(); return f != nil && corpusLoaders[f] && c.Value() != nil })
 		for _, nr := range MaybeNilErrorReturns(scanFn) {
-			dom := false
-			for _, c := range CallsIn(scanFn, false) {
-				if f := c.Callee(); f != nil && corpusLoaders[f] && c.Value() != nil {
-					if ok, _ := SuccessDominates(c.Value(), c06LastInstr(nr.From)); ok {
-						dom = true
-					}
-					if ev, _, _ := ErrValue(c.Value()); ev != nil && sameOrigin(nr.Val, ev) {
-						dom = true
-					}
-				}
-			}
-			if !dom {
+			if ok, _, _ := cx.anyBefore(loads, c06Occ{root: scanFn, in: c06LastInstr(nr.From)}, nr.Val, true); !ok {
 				bad = fmt.Sprintf("scanFromStorage can return nil (line %d) without having loaded Corpus.deletes from the 'deleted' rows: a restarted corpus forgets every deletion the live corpus knows", p.Fset.Position(nr.Ret.Pos()).Line)
 			}
 		}
@@ -1615,17 +2005,25 @@ func c06RuleOwner(cx *c06Ctx) {
 		r.Check(bad == "", rule, construct, site, "corpus built by NewCorpusFromStorage from this index's own store", bad)
 	}
 
-	// ---- D. mutationMap.deletes
-	noteDelete := p.Func(c06Rel, "mutationMap", "noteDelete")
+	// ---- D. mutationMap.deletes: only the note-delete step may append to it
 	nD := 0
 	for _, w := range ws {
 		if w.typ != cx.tMM || w.field != "deletes" {
 			continue
 		}
 		nD++
-		r.Check(w.fn == noteDelete || c06Fresh(w.base, w.fn), rule, FuncKey(w.fn)+"#mm.deletes", p.Pos(w.in.Pos()),
-			"mutationMap.deletes is appended to only by noteDelete (whose call sites K-delete-row checks)",
-			"mutationMap.deletes is written outside noteDelete: deletions reach the live caches without passing the row check of K-delete-row")
+		construct := FuncKey(w.fn) + "#mm.deletes"
+		switch {
+		case c06Fresh(w.base, w.fn):
+			r.OK(rule, construct, p.Pos(w.in.Pos()), "field of the mutation map allocated here")
+		case cx.isNoter(w.fn):
+			r.OK(rule, construct, p.Pos(w.in.Pos()), "the note-delete step: appends the claim it is given to the mutation map it is given (its call sites are checked by K-delete-row)")
+		default:
+			ok, why := cx.noteSiteOK(c06Occ{root: w.fn, in: w.in})
+			r.Check(ok, rule, construct, p.Pos(w.in.Pos()),
+				"appends a delete claim to mutationMap.deletes where the matching 'deleted' row was put into the same mutation map (the K-delete-row condition, checked here)",
+				"mutationMap.deletes is written outside noteDelete: deletions reach the live caches without passing the row check of K-delete-row ("+why+")")
+		}
 	}
 	r.Analysed("owner_writer_functions", nA+nB+nC+nD)
 	r.Floor(rule, 30)
@@ -1713,6 +2111,17 @@ func c06CorpusOwner(cx *c06Ctx, ws []c06Write) int {
 		fields := strings.Join(mutators[fn], ",")
 		// receiver role
 		isMethod := fn.Signature.Recv() != nil && NamedOf(fn.Signature.Recv().Type()) == cx.tCorpus
+		if !isMethod {
+			// an unexported helper of pkg/index that is handed the corpus: same reachability rule as a method
+			if _, enumerable := cx.enumerableCallers(fn); enumerable {
+				isMethod = true
+				for _, w := range ws {
+					if w.typ == cx.tCorpus && TopFunc(w.fn) == fn && c06Fresh(w.base, w.fn) {
+						isMethod = false // allocates the corpus it writes: constructor
+					}
+				}
+			}
+		}
 		if !isMethod {
 			fresh := true
 			for _, w := range ws {
@@ -1804,27 +2213,156 @@ func c06MethodCallOn(v ssa.Value, name string, recv func(ssa.Value) bool) bool {
 	return recv(c.Args()[0])
 }
 
-func c06RuleDeleteRow(cx *c06Ctx) {
-	const rule = "K-delete-row"
-	p, r := cx.p, cx.r
-	noteDelete := p.Func(c06Rel, "mutationMap", "noteDelete")
-	setFn := p.Func(c06Rel, "mutationMap", "Set")
-	gDeleted := c06Global(cx.pkg, "keyDeleted")
-	delName := cx.keyName[gDeleted]
-
-	isDeletedSet := func(c CallSite) bool {
-		if c.Callee() != setFn || c.IsDefer() || c.IsGo() {
-			return false
-		}
-		k, ok := cx.kindOfKey(c.Args()[1])
-		return ok && k.typ == delName
+// methodCallOnVal: val is (resolved towards the root) the result of a call of
+// method name whose receiver satisfies recv.
+func c06MethodCallOnVal(val c06Val, name string, recv func(c06Val) bool) bool {
+	v, lv := val.occ.up(val.v, val.level)
+	call, ok := originValue(v).(*ssa.Call)
+	if !ok {
+		return false
 	}
-	// keyAgrees: the 'deleted' row put by s describes claim cl: parts are
+	c := CallSite{call.Parent(), call}
+	if c.MethodName() != name || c.RecvType() == nil {
+		return false
+	}
+	return recv(c06Val{c.Args()[0], val.occ, lv})
+}
+
+// noterInfo: f's only writes of mutationMap.deletes are `mm.deletes =
+// append(mm.deletes, cl)` with mm and cl two of its parameters: the
+// note-delete step (mutationMap.noteDelete today), recognised by what it does.
+func (cx *c06Ctx) noterInfo(f *ssa.Function) (mmIdx, clIdx int, ok bool) {
+	if f == nil || len(f.Blocks) == 0 {
+		return 0, 0, false
+	}
+	mmIdx, clIdx = -1, -1
+	paramIdx := func(v ssa.Value) int {
+		prm, isP := originValue(v).(*ssa.Parameter)
+		if !isP {
+			return -1
+		}
+		for i, q := range f.Params {
+			if q == prm {
+				return i
+			}
+		}
+		return -1
+	}
+	n := 0
+	for _, b := range f.Blocks {
+		for _, in := range b.Instrs {
+			st, isSt := in.(*ssa.Store)
+			if !isSt {
+				continue
+			}
+			t, fld, base, isF := c06FieldOf(st.Addr)
+			if !isF || t != cx.tMM || fld != "deletes" {
+				continue
+			}
+			n++
+			old, elem, isApp := c06AppendOne(st.Val)
+			if !isApp {
+				return 0, 0, false
+			}
+			t2, f2, b2, isL := c06LoadedField(old)
+			if !isL || t2 != cx.tMM || f2 != "deletes" || !c06SamePlace(b2, base) {
+				return 0, 0, false
+			}
+			mi, ci := paramIdx(base), paramIdx(elem)
+			if mi < 0 || ci < 0 || (mmIdx >= 0 && (mi != mmIdx || ci != clIdx)) {
+				return 0, 0, false
+			}
+			mmIdx, clIdx = mi, ci
+		}
+	}
+	if n == 0 {
+		return 0, 0, false
+	}
+	// a function that also puts 'deleted' rows is not the bare note step: its append is checked where it stands
+	if cx.deletedPutReach().any[f] {
+		return 0, 0, false
+	}
+	return mmIdx, clIdx, true
+}
+
+func (cx *c06Ctx) isNoter(f *ssa.Function) bool {
+	_, _, ok := cx.noterInfo(f)
+	return ok
+}
+
+func (cx *c06Ctx) deletedPutReach() *c06Reach {
+	return cx.effReach("put:deleted", func(in ssa.Instruction) bool { _, _, ok := cx.deletedPut(in); return ok })
+}
+
+// deletedPut: in puts a 'deleted' row into a mutation map (mutationMap.Set, or
+// a direct store into its kv map): returns the mutation map and the key.
+func (cx *c06Ctx) deletedPut(in ssa.Instruction) (mm, key ssa.Value, ok bool) {
+	delName := cx.keyName[c06Global(cx.pkg, "keyDeleted")]
+	switch x := in.(type) {
+	case *ssa.Call:
+		c := CallSite{in.Parent(), x}
+		f := c.Callee()
+		if f == nil || f != cx.p.LookupFunc(c06Rel, "mutationMap", "Set") {
+			return nil, nil, false
+		}
+		if k, isK := cx.kindOfKey(c.Args()[1]); isK && k.typ == delName {
+			return c.Args()[0], c.Args()[1], true
+		}
+	case *ssa.MapUpdate:
+		if n, f, base, isF := c06LoadedField(x.Map); isF && n == cx.tMM && f == "kv" {
+			if k, isK := cx.kindOfKey(x.Key); isK && k.typ == delName {
+				return base, x.Key, true
+			}
+		}
+	}
+	return nil, nil, false
+}
+
+// noteStoreParts: in is a store mm.deletes = append(mm.deletes, cl).
+func (cx *c06Ctx) noteStoreParts(in ssa.Instruction) (mm, cl ssa.Value, ok bool) {
+	st, isSt := in.(*ssa.Store)
+	if !isSt {
+		return nil, nil, false
+	}
+	t, fld, base, isF := c06FieldOf(st.Addr)
+	if !isF || t != cx.tMM || fld != "deletes" {
+		return nil, nil, false
+	}
+	_, elem, isApp := c06AppendOne(st.Val)
+	if !isApp {
+		return base, nil, true
+	}
+	return base, elem, true
+}
+
+// noteSiteOK: the occurrence notes a delete claim (a call of the note-delete
+// step, or a direct append to mm.deletes): the matching 'deleted' row must have
+// been put into the same mutation map before, in the effective body of the
+// function or — when that is a helper — of every caller.
+func (cx *c06Ctx) noteSiteOK(occ0 c06Occ) (bool, string) {
+	var mm, cl ssa.Value
+	if ci, isCall := occ0.in.(ssa.CallInstruction); isCall {
+		c := CallSite{occ0.in.Parent(), ci}
+		mi, cidx, ok := cx.noterInfo(c.Callee())
+		if !ok {
+			return false, "not a call of the note-delete step"
+		}
+		mm, cl = c.Args()[mi], c.Args()[cidx]
+	} else {
+		var ok bool
+		mm, cl, ok = cx.noteStoreParts(occ0.in)
+		if !ok || cl == nil {
+			return false, "mutationMap.deletes is assigned something other than append(mm.deletes, claim)"
+		}
+	}
+	gDeleted := c06Global(cx.pkg, "keyDeleted")
+	// keyAgrees: the 'deleted' row put at s describes claim cl: parts are
 	// cl.Target(), cl.ClaimDateString(), cl.Blob().BlobRef() — the order in which
 	// kvDeleted (load) reads target/date/deleter and in which the live updaters
 	// take them from the claim.
-	keyAgrees := func(s CallSite, cl ssa.Value) (bool, string) {
-		kc, ok := originValue(s.Args()[1]).(*ssa.Call)
+	keyAgrees := func(s c06Occ, key ssa.Value, occ c06Occ) (bool, string) {
+		kv, klv := s.up(key, s.leafLevel())
+		kc, ok := originValue(kv).(*ssa.Call)
 		if !ok {
 			return false, "the 'deleted' key is not built by keyDeleted.Key(...)"
 		}
@@ -1835,130 +2373,122 @@ func c06RuleDeleteRow(cx *c06Ctx) {
 		if len(parts) != 3 {
 			return false, "cannot read the three parts of the keyDeleted key"
 		}
-		onClaim := func(v ssa.Value) bool { return c06SamePlace(v, cl) }
-		if !c06MethodCallOn(parts[0], "Target", onClaim) {
+		claim := occ.leafVal(cl)
+		onClaim := func(v c06Val) bool { return c06SameVal(v, claim) }
+		part := func(i int) c06Val { return c06Val{parts[i], s, klv} }
+		if !c06MethodCallOnVal(part(0), "Target", onClaim) {
 			return false, "part 1 of the 'deleted' row (the deleted entity, which a restart reads as the target) is not Target() of the claim handed to noteDelete: the restart path and the live caches record different deletions"
 		}
-		if !c06MethodCallOn(parts[1], "ClaimDateString", onClaim) {
+		if !c06MethodCallOnVal(part(1), "ClaimDateString", onClaim) {
 			return false, "part 2 of the 'deleted' row (the date a restart reads) is not ClaimDateString() of the claim handed to noteDelete"
 		}
-		if !c06MethodCallOn(parts[2], "BlobRef", func(b ssa.Value) bool { return c06MethodCallOn(b, "Blob", onClaim) }) {
+		if !c06MethodCallOnVal(part(2), "BlobRef", func(b c06Val) bool { return c06MethodCallOnVal(b, "Blob", onClaim) }) {
 			return false, "part 3 of the 'deleted' row (the deleter a restart reads) is not Blob().BlobRef() of the claim handed to noteDelete"
 		}
 		return true, ""
 	}
-	// rowOnAllSuccess: every maybe-nil-error return of f is dominated by a 'deleted' Set on parameter index pi
-	rowOnAllSuccess := func(f *ssa.Function, pi int) (bool, string) {
-		if f.Blocks == nil || pi >= len(f.Params) {
-			return false, "callee has no body"
-		}
-		var sets []CallSite
-		for _, s := range CallsIn(f, false) {
-			if isDeletedSet(s) && c06SamePlace(s.Args()[0], f.Params[pi]) {
-				sets = append(sets, s)
-			}
-		}
-		if len(sets) == 0 {
-			return false, FuncKey(f) + " puts no 'deleted' row into the mutation map"
-		}
-		rets := MaybeNilErrorReturns(f)
-		if ErrResultIndex(f) < 0 {
-			for _, ri := range Returns(f) {
-				rets = append(rets, NilReturn{Ret: ri.Ret, From: ri.Ret.Block()})
-			}
-		}
-		for _, nr := range rets {
-			dom := false
-			for _, s := range sets {
-				if Precedes(s.Instr, c06LastInstr(nr.From)) {
-					dom = true
-				}
-			}
-			if !dom {
-				return false, fmt.Sprintf("%s can return successfully (line %d) without having put a 'deleted' row into the mutation map", FuncKey(f), p.Fset.Position(nr.Ret.Pos()).Line)
-			}
-		}
-		return true, ""
-	}
-
-	n := 0
-	for _, c := range p.StaticCallers(noteDelete) {
-		n++
-		construct := FuncKey(c.Fn) + "#noteDelete"
-		site := p.Pos(c.Pos())
-		mm, cl := c.Args()[0], c.Args()[1]
-		decided := false
-		for _, s := range CallsIn(c.Fn, false) {
-			if !isDeletedSet(s) || !Precedes(s.Instr, c.Instr) || !c06SamePlace(s.Args()[0], mm) {
+	return cx.climb(occ0, 0, func(occ c06Occ) (bool, string) {
+		why := "mm.noteDelete runs although no 'deleted' row was put into the same mutation map on this path: the live deletion caches (index and corpus) report a deletion that a restart, which reads only the rows, does not"
+		cx.deletedPutReach()
+		for _, s := range cx.effFind(occ.root, "put:deleted", func(in ssa.Instruction) bool { _, _, ok := cx.deletedPut(in); return ok }) {
+			smm, key, _ := cx.deletedPut(s.in)
+			if !c06SameVal(s.leafVal(smm), occ.leafVal(mm)) {
 				continue
 			}
-			ok, why := keyAgrees(s, cl)
-			r.Check(ok, rule, construct, site, "dominated by mm.Set(keyDeleted.Key(cl.Target(), cl.ClaimDateString(), cl.Blob().BlobRef())) on the same mutation map", why)
-			decided = true
-			break
+			if ok, w := cx.before(s, occ, nil, true); !ok {
+				if len(s.chain) > 0 {
+					why = "mm.noteDelete runs after a call of " + c06FnName(s.chain[0].callee) + " that does not always put the 'deleted' row (" + w + "): the live deletion caches (index and corpus) then report a deletion that a restart, which reads only the rows, does not"
+				}
+				continue
+			}
+			ok, w := keyAgrees(s, key, occ)
+			if ok {
+				return true, ""
+			}
+			why = w
 		}
-		if decided {
+		return false, why
+	})
+}
+
+func c06RuleDeleteRow(cx *c06Ctx) {
+	const rule = "K-delete-row"
+	p, r := cx.p, cx.r
+	n := 0
+	// the note-delete step(s), by role
+	var noters []*ssa.Function
+	for _, fn := range cx.fns {
+		if cx.isNoter(fn) {
+			noters = append(noters, fn)
+		}
+	}
+	for _, noter := range noters {
+		for _, c := range p.StaticCallers(noter) {
+			n++
+			construct := FuncKey(c.Fn) + "#" + noter.Name()
+			ok, why := cx.noteSiteOK(c06Occ{root: c.Fn, in: c.Instr})
+			r.Check(ok, rule, construct, p.Pos(c.Pos()), "dominated by mm.Set(keyDeleted.Key(cl.Target(), cl.ClaimDateString(), cl.Blob().BlobRef())) on the same mutation map (directly, or through a successful call all of whose success returns are)", why)
+		}
+		if uses := p.FuncValueUses(noter); len(uses) > 0 {
+			r.Undecided(rule, FuncKey(noter)+"#value", p.Pos(uses[0].Pos()), noter.Name()+" is used as a function value")
+		}
+	}
+	// direct appends to mm.deletes outside a note step (the step inlined into its caller)
+	for _, fn := range cx.fns {
+		if cx.isNoter(fn) {
 			continue
 		}
-		// bound-1 summary: a dominating, successful call that always writes the row
-		why := "mm.noteDelete runs although no 'deleted' row was put into the same mutation map on this path: the live deletion caches (index and corpus) report a deletion that a restart, which reads only the rows, does not"
-		for _, d := range CallsIn(c.Fn, false) {
-			f := d.Callee()
-			if f == nil || d.Value() == nil || f == setFn || !Precedes(d.Instr, c.Instr) {
-				continue
-			}
-			pi := -1
-			for i, a := range d.Args() {
-				if c06SamePlace(a, mm) {
-					pi = i
+		for _, b := range fn.Blocks {
+			for _, in := range b.Instrs {
+				mm, _, ok := cx.noteStoreParts(in)
+				if !ok || c06Fresh(mm, fn) {
+					continue
 				}
-			}
-			if pi < 0 {
-				continue
-			}
-			if ok, _ := SuccessDominates(d.Value(), c.Instr); !ok {
-				continue
-			}
-			if ok, detail := rowOnAllSuccess(f, pi); ok {
-				r.OK(rule, construct, site, "dominated by a successful call of "+FuncKey(f)+", every success return of which has put the 'deleted' row into the same mutation map")
-				decided = true
-				break
-			} else if detail != "" {
-				why = "mm.noteDelete runs after " + detail + ": the live deletion caches (index and corpus) then report a deletion that a restart, which reads only the rows, does not"
+				n++
+				ok, why := cx.noteSiteOK(c06Occ{root: fn, in: in})
+				r.Check(ok, rule, FuncKey(fn)+"#noteDelete", p.Pos(in.Pos()), "the claim is appended to mm.deletes where the matching 'deleted' row was put into the same mutation map", why)
 			}
 		}
-		if !decided {
-			r.Violation(rule, construct, site, why)
+	}
+	// converse: a 'deleted' row in mm is always followed by the note-delete step on the same mm
+	isNote := func(in ssa.Instruction, vals []ssa.Value) bool {
+		if vals[0] == nil {
+			return false
 		}
+		switch x := in.(type) {
+		case *ssa.Call, *ssa.Defer:
+			c := CallSite{in.Parent(), x.(ssa.CallInstruction)}
+			if mi, _, ok := cx.noterInfo(c.Callee()); ok {
+				return c06SamePlace(c.Args()[mi], vals[0])
+			}
+		case *ssa.Store:
+			if mm, _, ok := cx.noteStoreParts(x); ok && !cx.isNoter(in.Parent()) {
+				return c06SamePlace(mm, vals[0])
+			}
+		}
+		return false
 	}
-	if uses := p.FuncValueUses(noteDelete); len(uses) > 0 {
-		r.Undecided(rule, FuncKey(noteDelete)+"#value", p.Pos(uses[0].Pos()), "noteDelete is used as a function value")
-	}
-	// converse: a 'deleted' row in mm is always followed by noteDelete on the same mm
 	for _, fn := range cx.fns {
-		for _, s := range CallsIn(fn, false) {
-			if !isDeletedSet(s) {
-				continue
-			}
-			n++
-			mm := s.Args()[0]
-			leaks := LeakingExits(PathQuery{
-				Start: s.Instr,
-				Stop: func(in ssa.Instruction) bool {
-					ci, ok := in.(ssa.CallInstruction)
-					if !ok {
-						return false
+		for _, b := range fn.Blocks {
+			for _, in := range b.Instrs {
+				mm, _, ok := cx.deletedPut(in)
+				if !ok {
+					continue
+				}
+				if ci, isCI := in.(ssa.CallInstruction); isCI {
+					if _, plain := ci.(*ssa.Call); !plain {
+						continue
 					}
-					c := CallSite{fn, ci}
-					return c.Callee() == noteDelete && !c.IsGo() && c06SamePlace(c.Args()[0], mm)
-				},
-				IgnorePanics: true,
-			})
-			detail := ""
-			if len(leaks) > 0 {
-				detail = fmt.Sprintf("a 'deleted' row is put into the mutation map but the exit at line %d is reached without mm.noteDelete: the row is committed while the live index/corpus deletion caches never learn of it (a restart does)", p.Fset.Position(leaks[0].Exit.Pos()).Line)
+				}
+				n++
+				q := &c06PathQ{cx: cx, stop: isNote, climbUp: true}
+				leaks := q.from(in, []ssa.Value{mm})
+				detail := ""
+				if len(leaks) > 0 {
+					detail = fmt.Sprintf("a 'deleted' row is put into the mutation map but the exit of %s at line %d is reached without mm.noteDelete: the row is committed while the live index/corpus deletion caches never learn of it (a restart does)", c06FnName(leaks[0].exit.Parent()), p.Fset.Position(leaks[0].exit.Pos()).Line)
+				}
+				r.Check(len(leaks) == 0, rule, FuncKey(fn)+"#deleted-row", p.Pos(in.Pos()), "every path from the 'deleted' row to an exit passes mm.noteDelete on the same mutation map", detail)
 			}
-			r.Check(len(leaks) == 0, rule, FuncKey(fn)+"#deleted-row", p.Pos(s.Pos()), "every path from the 'deleted' row to an exit passes mm.noteDelete on the same mutation map", detail)
 		}
 	}
 	r.Analysed("delete_row_sites", n)
@@ -1981,48 +2511,71 @@ func c06RuleLive(cx *c06Ctx) {
 	addBlob := p.Func(c06Rel, "Corpus", "addBlob")
 	n := 0
 
-	// (a) callers of addBlob
+	isCommitCall := func(c CallSite) bool { return c.Callee() == commit && c.Value() != nil }
+	isCB := func(c CallSite) bool { return c06IsKVInvoke(c, "CommitBatch") && c.Value() != nil }
+	isBegin := func(c CallSite) bool { return c06IsKVInvoke(c, "BeginBatch") && c.Value() != nil }
+
+	// (a) callers of addBlob. The caller's effective body counts, and when the
+	// caller is itself a helper, so does every one of its callers (climb).
 	for _, c := range p.StaticCallers(addBlob) {
 		n++
 		construct := FuncKey(c.Fn) + "#addBlob"
 		site := p.Pos(c.Pos())
 		args := c.Args()
 		mm := args[len(args)-1]
-		bad := ""
-		var commitCall *CallSite
-		for _, cc := range CallsIn(c.Fn, false) {
-			if cc.Callee() != commit || cc.Value() == nil {
-				continue
-			}
-			if ok, _ := SuccessDominates(cc.Value(), c.Instr); ok && c06SamePlace(cc.Args()[1], mm) {
-				cc := cc
-				commitCall = &cc
-			}
-		}
-		if commitCall == nil {
-			bad = "corpus.addBlob is not dominated by a successful ix.commit of the same mutation map: the corpus merges rows that were not (or not yet, or not these) persisted"
-		}
-		if bad == "" {
-			n2, f, base, ok := c06LoadedField(args[0])
-			if !ok || n2 != cx.tIndex || f != "corpus" || !c06SamePlace(base, commitCall.Args()[0]) {
-				bad = "the corpus updated is not the corpus field of the index whose rows were committed"
-			}
-		}
-		if bad == "" {
-			top := TopFunc(c.Fn)
-			if top.Signature.Recv() == nil || len(top.Params) == 0 {
-				bad = "caller is not a method: cannot name the index lock"
-			} else {
-				lock := "&" + top.Params[0].Name() + ".mu"
-				li := AnalyzeLocks(top, LockSet{})
-				if !li.Holds(c.Instr, lock, 'W') {
-					bad = "corpus.addBlob runs without the index write lock " + lock + " (held: " + li.HeldAt(c.Instr).String() + "): readers under RLock can observe a half-merged corpus that no restart would produce"
-				} else if !li.Holds(commitCall.Instr, lock, 'W') {
-					bad = "ix.commit runs without the index write lock " + lock + ": rows and corpus are not updated atomically with respect to readers"
+		ok, bad := cx.climb(c06Occ{root: c.Fn, in: c.Instr}, 0, func(occ c06Occ) (bool, string) {
+			var commitOcc *c06Occ
+			why := "corpus.addBlob is not dominated by a successful ix.commit of the same mutation map: the corpus merges rows that were not (or not yet, or not these) persisted"
+			for _, cc := range cx.effCalls(occ.root, "call:commit", isCommitCall) {
+				ccArgs := (CallSite{cc.in.Parent(), cc.in.(ssa.CallInstruction)}).Args()
+				if !c06SameVal(cc.leafVal(ccArgs[1]), occ.leafVal(mm)) {
+					continue
+				}
+				if ok, _ := cx.before(cc, occ, nil, true); ok {
+					cc := cc
+					commitOcc = &cc
+					break
 				}
 			}
-		}
-		r.Check(bad == "", rule, construct, site, "same mutation map as the dominating successful commit, same index's corpus, under the index write lock", bad)
+			if commitOcc == nil {
+				return false, why
+			}
+			ccArgs := (CallSite{commitOcc.in.Parent(), commitOcc.in.(ssa.CallInstruction)}).Args()
+			cv, lv := occ.up(args[0], occ.leafLevel())
+			n2, f, base, isField := c06LoadedField(cv)
+			if !isField || n2 != cx.tIndex || f != "corpus" || !c06SameVal(c06Val{base, occ, lv}, commitOcc.leafVal(ccArgs[0])) {
+				return false, "the corpus updated is not the corpus field of the index whose rows were committed"
+			}
+			// the write lock of that index, held where the index is named and not released further down
+			held := func(o c06Occ, ixv ssa.Value, level int, what string) string {
+				ixv, level = o.up(ixv, level)
+				ap := AccessPath(ixv)
+				if strings.HasPrefix(ap, "?") || strings.HasPrefix(ap, "&") {
+					return what + ": cannot name the index whose lock must be held"
+				}
+				lock := "&" + ap + ".mu"
+				at := o.rep(level)
+				if ls := cx.locksAt(at); ls[lock] != 'W' {
+					return what + " runs without the index write lock " + lock + " (held: " + ls.String() + ")"
+				}
+				for j := level + 1; j <= o.leafLevel(); j++ {
+					for _, hc := range CallsIn(o.fnAt(j), false) {
+						if op, _, isLock := lockEffect(hc); isLock && (op == "Unlock" || op == "RUnlock") && Precedes(hc.Instr, o.rep(j)) {
+							return what + " runs in " + c06FnName(o.fnAt(j)) + ", which releases a lock before it: the index write lock cannot be followed"
+						}
+					}
+				}
+				return ""
+			}
+			if msg := held(occ, base, lv, "corpus.addBlob"); msg != "" {
+				return false, msg + ": readers under RLock can observe a half-merged corpus that no restart would produce"
+			}
+			if msg := held(*commitOcc, ccArgs[0], commitOcc.leafLevel(), "ix.commit"); msg != "" {
+				return false, msg + ": rows and corpus are not updated atomically with respect to readers"
+			}
+			return true, ""
+		})
+		r.Check(ok, rule, construct, site, "same mutation map as the dominating successful commit, same index's corpus, under the index write lock", bad)
 	}
 	if uses := p.FuncValueUses(addBlob); len(uses) > 0 {
 		r.Undecided(rule, FuncKey(addBlob)+"#value", p.Pos(uses[0].Pos()), "addBlob is used as a function value")
@@ -2033,23 +2586,18 @@ func c06RuleLive(cx *c06Ctx) {
 		n++
 		fn := cc.Fn
 		construct := FuncKey(fn) + "#commit"
-		nilOK := map[*ssa.Return]bool{}
-		for _, nr := range MaybeNilErrorReturns(fn) {
-			nilOK[nr.Ret] = true
-		}
-		mm := cc.Args()[1]
-		leaks := LeakingExits(PathQuery{
-			Start: cc.Instr,
-			Stop: func(in ssa.Instruction) bool {
-				ci, ok := in.(ssa.CallInstruction)
+		q := &c06PathQ{
+			cx: cx,
+			stop: func(in ssa.Instruction, vals []ssa.Value) bool {
+				ci, ok := in.(*ssa.Call)
 				if !ok {
 					return false
 				}
-				c := CallSite{fn, ci}
+				c := CallSite{in.Parent(), ci}
 				a := c.Args()
-				return c.Callee() == addBlob && len(a) > 0 && c06SamePlace(a[len(a)-1], mm)
+				return c.Callee() == addBlob && len(a) > 0 && vals[0] != nil && c06SamePlace(a[len(a)-1], vals[0])
 			},
-			Assume: func(cond ssa.Value) (bool, bool) {
+			assume: func(cond ssa.Value) (bool, bool) {
 				bo, ok := cond.(*ssa.BinOp)
 				if !ok || (bo.Op != token.NEQ && bo.Op != token.EQL) {
 					return false, false
@@ -2068,15 +2616,13 @@ func c06RuleLive(cx *c06Ctx) {
 				}
 				return false, false
 			},
-			ExitOK: func(exit ssa.Instruction) bool {
-				ret, ok := exit.(*ssa.Return)
-				return ok && !nilOK[ret]
-			},
-			IgnorePanics: true,
-		})
+			errorExitsOK: true,
+			climbUp:      true,
+		}
+		leaks := q.from(cc.Instr, []ssa.Value{cc.Args()[1]})
 		detail := ""
 		if len(leaks) > 0 {
-			detail = fmt.Sprintf("after ix.commit(mm) the success return at line %d is reachable with a non-nil corpus without corpus.addBlob(mm): committed rows that the live corpus never merges (a restart scans them)", p.Fset.Position(leaks[0].Exit.Pos()).Line)
+			detail = fmt.Sprintf("after ix.commit(mm) the success return of %s at line %d is reachable with a non-nil corpus without corpus.addBlob(mm): committed rows that the live corpus never merges (a restart scans them)", c06FnName(leaks[0].exit.Parent()), p.Fset.Position(leaks[0].exit.Pos()).Line)
 		}
 		r.Check(len(leaks) == 0, rule, construct, p.Pos(cc.Pos()), "every success path after commit passes corpus.addBlob with the same mutation map (corpus != nil)", detail)
 	}
@@ -2084,35 +2630,32 @@ func c06RuleLive(cx *c06Ctx) {
 		r.Undecided(rule, FuncKey(commit)+"#value", p.Pos(uses[0].Pos()), "commit is used as a function value")
 	}
 
-	// (c) inside commit: batch carries mm.kv, success only after CommitBatch
+	// (c) inside commit (effective body): batch carries mm.kv, success only after CommitBatch
 	{
 		n++
-		var cbs, begins []*ssa.Call
-		for _, c := range CallsIn(commit, false) {
-			if c06IsKVInvoke(c, "CommitBatch") && c.Value() != nil {
-				cbs = append(cbs, c.Value())
-			}
-			if c06IsKVInvoke(c, "BeginBatch") && c.Value() != nil {
-				begins = append(begins, c.Value())
-			}
-		}
+		cbs := cx.effCalls(commit, "call:CommitBatch", isCB)
+		begins := cx.effCalls(commit, "call:BeginBatch", isBegin)
 		construct := FuncKey(commit) + "#batch"
+		rootOcc := c06Occ{root: commit}
 		if len(cbs) == 0 || len(begins) != 1 {
 			r.Violation(rule, construct, p.Pos(commit.Pos()), "commit no longer writes the mutation map through one BeginBatch and CommitBatch")
 		} else {
 			begin := begins[0]
+			beginVal := begin.leafVal(begin.in.(*ssa.Call))
 			bad := ""
 			for _, cb := range cbs {
-				if !sameOrigin(cb.Call.Args[0], begin) {
+				if !c06SameVal(cb.leafVal(cb.in.(*ssa.Call).Call.Args[0]), beginVal) {
 					bad = "the batch committed is not the batch begun"
 				}
 			}
 			_, conduits := cx.rowWritesCached()
-			found := false
+			isConduit := map[ssa.Instruction]bool{}
 			for _, s := range conduits {
-				if s.Fn != commit {
-					continue
-				}
+				isConduit[s.Instr] = true
+			}
+			found := false
+			for _, so := range cx.effFind(commit, "", func(in ssa.Instruction) bool { return isConduit[in] }) {
+				s := CallSite{so.in.Parent(), so.in.(ssa.CallInstruction)}
 				a := s.Args()
 				km, ik, okk := c06RangeMapOf(originValue(a[1]))
 				vm, iv, okv := c06RangeMapOf(originValue(a[2]))
@@ -2120,22 +2663,31 @@ func c06RuleLive(cx *c06Ctx) {
 					bad = "the batch does not receive the (k, v) pairs of mm.kv unchanged"
 					continue
 				}
-				if n2, _, base, ok := c06LoadedField(km); !ok || n2 != cx.tMM || !c06SamePlace(base, commit.Params[1]) {
+				kmU, kmL := so.up(km, so.leafLevel())
+				if n2, _, base, ok := c06LoadedField(kmU); !ok || n2 != cx.tMM || !c06SameVal(c06Val{base, so, kmL}, c06Val{commit.Params[1], rootOcc, 0}) {
 					bad = "the rows put into the batch are not those of the mutation map given to commit"
 					continue
 				}
-				if !sameOrigin(a[0], begin) {
+				if !c06SameVal(so.leafVal(a[0]), beginVal) {
 					bad = "the rows are put into a different batch than the one committed"
 					continue
 				}
 				for _, cb := range cbs {
-					if ReachableFrom(cb, nil)[s.Instr] {
+					k := cb.common(so)
+					if ReachableFrom(cb.rep(k), nil)[so.rep(k)] {
 						bad = "rows are added to the batch after it was committed"
 					}
 				}
-				for _, f := range FactsAt(s.Block()) {
-					if !c06IsLoopCond(f.Cond) {
-						bad = "rows of mm.kv are put into the batch only conditionally, while corpus.addBlob merges all of them"
+				for j := 0; j <= so.leafLevel(); j++ {
+					for _, f := range FactsAt(so.rep(j).Block()) {
+						if !c06IsLoopCond(f.Cond) {
+							bad = "rows of mm.kv are put into the batch only conditionally, while corpus.addBlob merges all of them"
+						}
+					}
+				}
+				for _, l := range so.chain {
+					if !l.direct {
+						bad = "rows of mm.kv are put into the batch by a deferred / asynchronous call"
 					}
 				}
 				found = true
@@ -2143,26 +2695,17 @@ func c06RuleLive(cx *c06Ctx) {
 			if !found && bad == "" {
 				bad = "commit does not put the rows of mm.kv into the batch"
 			}
-			r.Check(bad == "", rule, construct, p.Pos(cbs[0].Pos()), "every (k, v) of mm.kv is put unchanged into the batch that CommitBatch persists", bad)
+			r.Check(bad == "", rule, construct, p.Pos(cbs[0].in.Pos()), "every (k, v) of mm.kv is put unchanged into the batch that CommitBatch persists", bad)
 			n++
 			bad = ""
 			for _, nr := range MaybeNilErrorReturns(commit) {
-				ok := false
-				why := ""
-				for _, cb := range cbs {
-					if ev, _, _ := ErrValue(cb); ev != nil && sameOrigin(nr.Val, ev) {
-						ok = true // returns CommitBatch's own error
-					}
-					var d bool
-					if d, why = SuccessDominates(cb, c06LastInstr(nr.From)); d {
-						ok = true
-					}
-				}
+				retOcc := c06Occ{root: commit, in: c06LastInstr(nr.From)}
+				ok, _, why := cx.anyBefore(cbs, retOcc, nr.Val, true)
 				if !ok {
 					bad = fmt.Sprintf("commit can return nil (line %d) although CommitBatch did not succeed (%s): ReceiveBlob then feeds the corpus rows that are not persisted", p.Fset.Position(nr.Ret.Pos()).Line, why)
 				}
 			}
-			r.Check(bad == "", rule, FuncKey(commit)+"#success", p.Pos(cbs[0].Pos()), "every nil return of commit is dominated by a successful CommitBatch (or is CommitBatch's own error)", bad)
+			r.Check(bad == "", rule, FuncKey(commit)+"#success", p.Pos(cbs[0].in.Pos()), "every nil return of commit is dominated by a successful CommitBatch (or is CommitBatch's own error)", bad)
 		}
 	}
 
@@ -2172,30 +2715,69 @@ func c06RuleLive(cx *c06Ctx) {
 		n++
 		construct := FuncKey(addBlob) + "#merges-all"
 		mmParam := addBlob.Params[len(addBlob.Params)-1]
-		var kvLoop, delLoop ssa.Instruction
-		for _, b := range addBlob.Blocks {
-			for _, in := range b.Instrs {
-				switch x := in.(type) {
-				case *ssa.Range:
-					if n2, f, base, ok := c06LoadedField(x.X); ok && n2 == cx.tMM && f == "kv" && c06SamePlace(base, mmParam) {
-						kvLoop = x
+		rootOcc := c06Occ{root: addBlob}
+		ofMM := func(o c06Occ, base ssa.Value) bool {
+			return c06SameVal(o.leafVal(base), c06Val{mmParam, rootOcc, 0})
+		}
+		var kvLoops, delLoops []c06Occ
+		for _, o := range cx.effFind(addBlob, "mm.kv-range", func(in ssa.Instruction) bool {
+			x, ok := in.(*ssa.Range)
+			if !ok {
+				return false
+			}
+			n2, f, _, ok := c06LoadedField(x.X)
+			return ok && n2 == cx.tMM && f == "kv"
+		}) {
+			if _, _, base, _ := c06LoadedField(o.in.(*ssa.Range).X); ofMM(o, base) {
+				kvLoops = append(kvLoops, o)
+			}
+		}
+		for _, o := range cx.effFind(addBlob, "mm.deletes-load", func(in ssa.Instruction) bool {
+			x, ok := in.(*ssa.UnOp)
+			if !ok || x.Op != token.MUL {
+				return false
+			}
+			n2, f, _, ok := c06FieldOf(x.X)
+			if !ok || n2 != cx.tMM || f != "deletes" {
+				return false
+			}
+			// the slice is iterated (an element is read, or it is ranged/handed on), not merely measured
+			for _, ref := range *x.Referrers() {
+				switch u := ref.(type) {
+				case *ssa.IndexAddr, *ssa.Index, *ssa.Range, *ssa.Slice:
+					return true
+				case *ssa.Call:
+					bi, isBuiltin := u.Call.Value.(*ssa.Builtin)
+					if !isBuiltin {
+						return true
 					}
-				case *ssa.UnOp:
-					if x.Op == token.MUL {
-						if n2, f, base, ok := c06FieldOf(x.X); ok && n2 == cx.tMM && f == "deletes" && c06SamePlace(base, mmParam) {
-							delLoop = x
+					// len(mm.deletes) bounding a loop (index loop, range over int)
+					if bi.Name() == "len" && u.Referrers() != nil {
+						for _, r2 := range *u.Referrers() {
+							if bo, isBO := r2.(*ssa.BinOp); isBO && inLoop(bo.Block()) {
+								if _, isIf := c06LastInstr(bo.Block()).(*ssa.If); isIf {
+									return true
+								}
+							}
 						}
 					}
 				}
 			}
+			return false
+		}) {
+			if _, _, base, _ := c06FieldOf(o.in.(*ssa.UnOp).X); ofMM(o, base) {
+				delLoops = append(delLoops, o)
+			}
 		}
-		if kvLoop == nil || delLoop == nil {
+		if len(kvLoops) == 0 || len(delLoops) == 0 {
 			r.Violation(rule, construct, p.Pos(addBlob.Pos()), "addBlob does not range over mm.kv and mm.deletes of the mutation map it is given")
 		} else {
 			nbad := 0
 			for _, nr := range MaybeNilErrorReturns(addBlob) {
-				last := c06LastInstr(nr.From)
-				if Precedes(kvLoop, last) && Precedes(delLoop, last) {
+				retOcc := c06Occ{root: addBlob, in: c06LastInstr(nr.From)}
+				okKV, _, _ := cx.anyBefore(kvLoops, retOcc, nr.Val, true)
+				okDel, _, _ := cx.anyBefore(delLoops, retOcc, nr.Val, true)
+				if okKV && okDel {
 					continue
 				}
 				nbad++
@@ -2230,36 +2812,38 @@ func c06RuleLive(cx *c06Ctx) {
 			continue
 		}
 		why, excepted := c06DirectExceptions[FuncKey(w.fn)]
+		checkFns := []*ssa.Function{w.fn}
+		if !excepted {
+			// a helper extracted from an excepted function: all its callers are (helpers of) excepted functions
+			if owners, ok := cx.helperOf(w.fn, func(f *ssa.Function) bool { _, e := c06DirectExceptions[FuncKey(f)]; return e }, 0); ok {
+				excepted, checkFns = true, owners
+				why = "helper of " + c06FuncKeys(owners) + ": " + c06DirectExceptions[FuncKey(owners[0])]
+			}
+		}
 		if !excepted {
 			r.Violation(rule, construct, p.Pos(w.pos), fmt.Sprintf("a row of kind %q is written straight to the index's sorted.KeyValue (%s), bypassing commit: the live corpus/caches never merge it while a restart loads it", w.kind.typ, w.op))
 			continue
 		}
 		// re-check the reason: every caller passes index.New on all later success paths
 		bad := ""
-		callers := p.StaticCallers(w.fn)
-		if len(callers) == 0 || len(p.FuncValueUses(w.fn)) > 0 {
-			bad = "callers cannot be enumerated"
-		}
-		for _, c := range callers {
-			cfn := c.Fn
-			nilOK := map[*ssa.Return]bool{}
-			for _, nr := range MaybeNilErrorReturns(cfn) {
-				nilOK[nr.Ret] = true
+		for _, xf := range checkFns {
+			callers := p.StaticCallers(xf)
+			if len(callers) == 0 || len(p.FuncValueUses(xf)) > 0 {
+				bad = "callers cannot be enumerated"
 			}
-			leaks := LeakingExits(PathQuery{
-				Start: c.Instr,
-				Stop: func(in ssa.Instruction) bool {
-					ci, ok := in.(ssa.CallInstruction)
-					return ok && (CallSite{cfn, ci}).Callee() == newFn
-				},
-				ExitOK: func(exit ssa.Instruction) bool {
-					ret, ok := exit.(*ssa.Return)
-					return ok && !nilOK[ret]
-				},
-				IgnorePanics: true,
-			})
-			if len(leaks) > 0 {
-				bad = fmt.Sprintf("%s can return successfully after %s without re-opening the index with New", FuncKey(cfn), FuncKey(w.fn))
+			for _, c := range callers {
+				q := &c06PathQ{
+					cx: cx,
+					stop: func(in ssa.Instruction, _ []ssa.Value) bool {
+						ci, ok := in.(ssa.CallInstruction)
+						return ok && (CallSite{in.Parent(), ci}).Callee() == newFn
+					},
+					errorExitsOK: true,
+					climbUp:      true,
+				}
+				if leaks := q.from(c.Instr, nil); len(leaks) > 0 {
+					bad = fmt.Sprintf("%s can return successfully after %s without re-opening the index with New", FuncKey(leaks[0].exit.Parent()), FuncKey(xf))
+				}
 			}
 		}
 		r.Check(bad == "", rule, construct, p.Pos(w.pos), "exception: "+why, "exception no longer justified: "+bad)
@@ -2281,6 +2865,889 @@ func (cx *c06Ctx) rowWritesCached() ([]c06RowWrite, []CallSite) {
 		c06RowCache.cx, c06RowCache.writes, c06RowCache.conduits = cx, w, c
 	}
 	return c06RowCache.writes, c06RowCache.conduits
+}
+
+// ---------------------------------------------------------------------------
+// Effective bodies (robustness to extract-helper / split-function /
+// closure→method / inline refactorings).
+//
+// A rule that looks for a site "in function F" looks in F's effective body: F
+// plus, transitively (depth c06EffDepth), the unexported functions/methods of
+// pkg/index and the function literals that F calls statically. An occurrence
+// records the call chain from F down to the instruction, so that a parameter
+// of a helper stands for the caller's argument and ordering facts (P precedes
+// Q, P succeeded before Q) are carried across the calls.
+
+const c06EffDepth = 4
+
+// c06Link is one step of a call chain: call (an instruction of the caller)
+// enters callee. direct: a plain synchronous static call — the callee runs
+// exactly once, to completion, at this instruction (not go/defer, not a
+// literal merely passed as an argument).
+type c06Link struct {
+	call   ssa.Instruction // the call; for a literal that is only created here (returned, stored): the instruction creating it
+	callee *ssa.Function
+	direct bool
+	passed bool // the callee is a literal handed on as a value (argument, result, stored): its parameters are supplied by someone else, it runs later, maybe never
+}
+
+// c06Occ is an instruction in the effective body of root, reached through chain.
+type c06Occ struct {
+	root  *ssa.Function
+	in    ssa.Instruction
+	chain []c06Link
+}
+
+func (o c06Occ) fnAt(level int) *ssa.Function {
+	if level == 0 {
+		return o.root
+	}
+	return o.chain[level-1].callee
+}
+
+// rep is the instruction of the function at `level` that stands for the occurrence.
+func (o c06Occ) rep(level int) ssa.Instruction {
+	if level < len(o.chain) {
+		return o.chain[level].call
+	}
+	return o.in
+}
+
+func (o c06Occ) top() ssa.Instruction { return o.rep(0) }
+
+func (o c06Occ) leafLevel() int { return len(o.chain) }
+
+// common is the number of leading links two occurrences (of one root) share.
+func (o c06Occ) common(b c06Occ) int {
+	k := 0
+	for k < len(o.chain) && k < len(b.chain) && o.chain[k].call == b.chain[k].call && o.chain[k].callee == b.chain[k].callee {
+		k++
+	}
+	return k
+}
+
+func (o c06Occ) describe() string {
+	if len(o.chain) == 0 {
+		return FuncKey(o.root)
+	}
+	parts := []string{FuncKey(o.root)}
+	for _, l := range o.chain {
+		parts = append(parts, c06FnName(l.callee))
+	}
+	return strings.Join(parts, " -> ")
+}
+
+// isHelper: f may be treated as a part of the bodies of its static callers.
+func (cx *c06Ctx) isHelper(f *ssa.Function) bool {
+	if f == nil || len(f.Blocks) == 0 {
+		return false
+	}
+	if f.Parent() != nil {
+		return true
+	}
+	if f.Pkg != cx.pkg || f.Synthetic != "" {
+		return false
+	}
+	return !token.IsExported(f.Name())
+}
+
+// helperLinks lists the helper calls of f (not of its nested literals: those
+// are reached through the links that invoke them).
+func (cx *c06Ctx) helperLinks(f *ssa.Function) []c06Link {
+	if cx.linkCache == nil {
+		cx.linkCache = map[*ssa.Function][]c06Link{}
+	}
+	if l, ok := cx.linkCache[f]; ok {
+		return l
+	}
+	var out []c06Link
+	for _, c := range CallsIn(f, false) {
+		if callee := c.Callee(); cx.isHelper(callee) {
+			_, plain := c.Instr.(*ssa.Call)
+			out = append(out, c06Link{call: c.Instr, callee: callee, direct: plain})
+		}
+		for _, lit := range FuncArgClosures(c) {
+			if len(lit.Blocks) > 0 {
+				out = append(out, c06Link{call: c.Instr, callee: lit, passed: true})
+			}
+		}
+	}
+	// literals that are neither called nor handed to a call here (returned, stored in a variable that escapes)
+	linked := map[*ssa.Function]bool{}
+	for _, l := range out {
+		linked[l.callee] = true
+	}
+	for _, b := range f.Blocks {
+		for _, in := range b.Instrs {
+			var lit *ssa.Function
+			if mc, ok := in.(*ssa.MakeClosure); ok {
+				lit, _ = mc.Fn.(*ssa.Function)
+			} else {
+				for _, op := range in.Operands(nil) {
+					if fv, ok := (*op).(*ssa.Function); ok && fv.Parent() == f {
+						lit = fv
+					}
+				}
+			}
+			if lit != nil && !linked[lit] && len(lit.Blocks) > 0 {
+				linked[lit] = true
+				out = append(out, c06Link{call: in, callee: lit, passed: true})
+			}
+		}
+	}
+	cx.linkCache[f] = out
+	return out
+}
+
+type c06Reach struct {
+	direct, any map[*ssa.Function]bool
+}
+
+// effReach: which functions of pkg/index contain (direct) / can reach through
+// helper links (any) an instruction satisfying pred. key != "" caches.
+func (cx *c06Ctx) effReach(key string, pred func(ssa.Instruction) bool) *c06Reach {
+	if cx.reachCache == nil {
+		cx.reachCache = map[string]*c06Reach{}
+	}
+	if key != "" {
+		if r, ok := cx.reachCache[key]; ok {
+			return r
+		}
+	}
+	r := &c06Reach{direct: map[*ssa.Function]bool{}, any: map[*ssa.Function]bool{}}
+	for _, f := range cx.fns {
+	scan:
+		for _, b := range f.Blocks {
+			for _, in := range b.Instrs {
+				if pred(in) {
+					r.direct[f], r.any[f] = true, true
+					break scan
+				}
+			}
+		}
+	}
+	for changed := true; changed; {
+		changed = false
+		for _, f := range cx.fns {
+			if r.any[f] {
+				continue
+			}
+			for _, l := range cx.helperLinks(f) {
+				if r.any[l.callee] {
+					r.any[f], changed = true, true
+					break
+				}
+			}
+		}
+	}
+	if key != "" {
+		cx.reachCache[key] = r
+	}
+	return r
+}
+
+// effFind enumerates the occurrences of instructions satisfying pred in the
+// effective body of root.
+func (cx *c06Ctx) effFind(root *ssa.Function, key string, pred func(ssa.Instruction) bool) []c06Occ {
+	reach := cx.effReach(key, pred)
+	var out []c06Occ
+	var walk func(f *ssa.Function, chain []c06Link)
+	walk = func(f *ssa.Function, chain []c06Link) {
+		if !reach.any[f] {
+			return
+		}
+		if reach.direct[f] {
+			for _, b := range f.Blocks {
+				for _, in := range b.Instrs {
+					if pred(in) {
+						out = append(out, c06Occ{root: root, in: in, chain: append([]c06Link(nil), chain...)})
+					}
+				}
+			}
+		}
+		if len(chain) >= c06EffDepth {
+			return
+		}
+	links:
+		for _, l := range cx.helperLinks(f) {
+			if !reach.any[l.callee] || l.callee == root {
+				continue
+			}
+			for _, c := range chain {
+				if c.callee == l.callee {
+					continue links
+				}
+			}
+			walk(l.callee, append(chain, l))
+		}
+	}
+	walk(root, nil)
+	return out
+}
+
+// effCalls: the call sites (in the effective body of root) whose static callee is one of fns.
+func (cx *c06Ctx) effCalls(root *ssa.Function, key string, match func(CallSite) bool) []c06Occ {
+	return cx.effFind(root, key, func(in ssa.Instruction) bool {
+		ci, ok := in.(ssa.CallInstruction)
+		return ok && match(CallSite{in.Parent(), ci})
+	})
+}
+
+func c06OwnerFn(v ssa.Value) *ssa.Function {
+	switch x := v.(type) {
+	case *ssa.Parameter:
+		return x.Parent()
+	case *ssa.FreeVar:
+		return x.Parent()
+	case ssa.Instruction:
+		return x.Parent()
+	}
+	return nil
+}
+
+// up resolves value v, which lives in the function at `level` of the
+// occurrence, towards the root: a parameter of a statically called helper is
+// replaced by the caller's argument; a value a literal captured from an
+// enclosing function is taken to that function's level.
+func (o c06Occ) up(v ssa.Value, level int) (ssa.Value, int) {
+	for i := 0; i < 16; i++ {
+		ov := originValue(v)
+		if owner := c06OwnerFn(ov); owner != nil && owner != o.fnAt(level) {
+			found := -1
+			for j := level - 1; j >= 0; j-- {
+				if o.fnAt(j) == owner {
+					found = j
+					break
+				}
+			}
+			if found < 0 {
+				return v, level
+			}
+			v, level = ov, found
+			continue
+		}
+		prm, ok := ov.(*ssa.Parameter)
+		if !ok || level == 0 {
+			return v, level
+		}
+		l := o.chain[level-1]
+		if l.passed || prm.Parent() != l.callee {
+			return v, level
+		}
+		args := (CallSite{o.fnAt(level - 1), l.call.(ssa.CallInstruction)}).Args()
+		idx := -1
+		for i, q := range l.callee.Params {
+			if q == prm {
+				idx = i
+			}
+		}
+		if idx < 0 || idx >= len(args) {
+			return v, level
+		}
+		v, level = args[idx], level-1
+	}
+	return v, level
+}
+
+// c06Val is a value together with the occurrence (and level) it lives in.
+type c06Val struct {
+	v     ssa.Value
+	occ   c06Occ
+	level int
+}
+
+func (o c06Occ) leafVal(v ssa.Value) c06Val { return c06Val{v, o, o.leafLevel()} }
+
+// sameVal: the two values denote the same run-time value: resolved upwards they
+// meet in one activation (a shared chain prefix) at the same place.
+func c06SameVal(a, b c06Val) bool {
+	ua, la := a.occ.up(a.v, a.level)
+	ub, lb := b.occ.up(b.v, b.level)
+	if a.occ.root != b.occ.root {
+		return false
+	}
+	return la == lb && la <= a.occ.common(b.occ) && c06SamePlace(ua, ub)
+}
+
+// succReturns: the returns of h that may report success (all returns when h has no error result).
+func c06SuccReturns(h *ssa.Function, successOnly bool) []NilReturn {
+	if successOnly && ErrResultIndex(h) >= 0 {
+		return MaybeNilErrorReturns(h)
+	}
+	var out []NilReturn
+	idx := ErrResultIndex(h)
+	for _, ri := range Returns(h) {
+		nr := NilReturn{Ret: ri.Ret, From: ri.Ret.Block()}
+		if idx >= 0 {
+			nr.Val = ri.Results[idx]
+		}
+		out = append(out, nr)
+	}
+	return out
+}
+
+// c06DoneAt: instruction x has been executed (and, with success, did not fail)
+// on every path to site; retVal != nil: site is a return of that error value
+// (returning x's own error counts: the return reports success only if x succeeded).
+func c06DoneAt(x, site ssa.Instruction, retVal ssa.Value, success bool) (bool, string) {
+	call, isCall := x.(*ssa.Call)
+	if _, isCI := x.(ssa.CallInstruction); isCI && !isCall {
+		return false, "the call is deferred or started with go: it has not completed at the site"
+	}
+	if success && isCall && retVal != nil {
+		if ev, _, _ := ErrValue(call); ev != nil && sameOrigin(retVal, ev) {
+			return true, ""
+		}
+	}
+	if x == site || !Precedes(x, site) {
+		return false, "does not precede the site on every path"
+	}
+	if success && isCall {
+		return SuccessDominates(call, site)
+	}
+	return true, ""
+}
+
+// before: occurrence a has been executed — with success: and every call on the
+// way down to it, and a itself if it is a call, returned a nil error — on every
+// path to occurrence b (retVal: b is a return of that error value).
+func (cx *c06Ctx) before(a, b c06Occ, retVal ssa.Value, success bool) (bool, string) {
+	if a.root != b.root {
+		return false, "different roots"
+	}
+	k := a.common(b)
+	ia, ib := a.rep(k), b.rep(k)
+	if ia == ib {
+		return false, "same instruction"
+	}
+	var rv ssa.Value
+	if k == b.leafLevel() {
+		rv = retVal
+	}
+	for j := k; j < len(a.chain); j++ {
+		if !a.chain[j].direct {
+			return false, "reached only through a go/defer/callback of " + c06FnName(a.chain[j].callee)
+		}
+	}
+	if ok, why := c06DoneAt(ia, ib, rv, success); !ok {
+		return false, why
+	}
+	for j := k + 1; j <= len(a.chain); j++ {
+		h := a.fnAt(j)
+		inner := a.rep(j)
+		rets := c06SuccReturns(h, success)
+		if len(rets) == 0 && len(Returns(h)) == 0 {
+			return false, c06FnName(h) + " never returns"
+		}
+		for _, nr := range rets {
+			if ok, why := c06DoneAt(inner, c06LastInstr(nr.From), nr.Val, success); !ok {
+				return false, fmt.Sprintf("%s can return%s (line %d) without it: %s", c06FnName(h), map[bool]string{true: " successfully", false: ""}[success], cx.p.Fset.Position(nr.Ret.Pos()).Line, why)
+			}
+		}
+	}
+	return true, ""
+}
+
+// anyBefore: some occurrence of as is before b.
+func (cx *c06Ctx) anyBefore(as []c06Occ, b c06Occ, retVal ssa.Value, success bool) (bool, c06Occ, string) {
+	why := "no such site in the effective body"
+	for _, a := range as {
+		ok, w := cx.before(a, b, retVal, success)
+		if ok {
+			return true, a, ""
+		}
+		why = w
+	}
+	return false, c06Occ{}, why
+}
+
+// enumerableCallers: every use of helper f is a static call (so StaticCallers is complete).
+func (cx *c06Ctx) enumerableCallers(f *ssa.Function) ([]CallSite, bool) {
+	if !cx.isHelper(f) {
+		return nil, false
+	}
+	if cx.callersCache == nil {
+		cx.callersCache = map[*ssa.Function]*c06Callers{}
+	}
+	if c, ok := cx.callersCache[f]; ok {
+		return c.sites, c.ok
+	}
+	res := &c06Callers{}
+	cx.callersCache[f] = res
+	sites := cx.p.StaticCallers(f)
+	if len(sites) == 0 {
+		return nil, false
+	}
+	if f.Parent() == nil {
+		if len(cx.p.FuncValueUses(f)) > 0 {
+			return nil, false
+		}
+		if f.Signature.Recv() != nil && len(cx.p.InvokeSites(f)) > 0 {
+			return nil, false
+		}
+	} else if !c06LiteralOnlyCalled(f) {
+		return nil, false
+	}
+	res.sites, res.ok = sites, true
+	return sites, true
+}
+
+type c06Callers struct {
+	sites []CallSite
+	ok    bool
+}
+
+// c06LiteralOnlyCalled: every use of the function literal lit is in callee
+// position of a call/go/defer (possibly through a plain local variable).
+func c06LiteralOnlyCalled(lit *ssa.Function) bool {
+	parent := lit.Parent()
+	if parent == nil {
+		return false
+	}
+	ok := true
+	seen := map[ssa.Value]bool{}
+	var uses func(v ssa.Value)
+	classify := func(v ssa.Value, r ssa.Instruction) {
+		switch r := r.(type) {
+		case ssa.CallInstruction:
+			if r.Common().Value != v {
+				ok = false
+			}
+			for _, a := range r.Common().Args {
+				if a == v {
+					ok = false
+				}
+			}
+		case *ssa.Store:
+			if r.Val != v {
+				return
+			}
+			cell, isVar := varOf(r.Addr)
+			al, isAl := cell.(*ssa.Alloc)
+			if !isVar || !isAl || !plainVariable(al) {
+				ok = false
+				return
+			}
+			followVar(al, func(ld *ssa.UnOp) { uses(ld) })
+		case *ssa.Phi, *ssa.ChangeType:
+			uses(r.(ssa.Value))
+		case *ssa.DebugRef:
+		default:
+			ok = false
+		}
+	}
+	uses = func(v ssa.Value) {
+		if seen[v] {
+			return
+		}
+		seen[v] = true
+		if refs := v.Referrers(); refs != nil {
+			for _, r := range *refs {
+				classify(v, r)
+			}
+		}
+	}
+	var scan func(f *ssa.Function)
+	scan = func(f *ssa.Function) {
+		for _, b := range f.Blocks {
+			for _, in := range b.Instrs {
+				if mc, isMC := in.(*ssa.MakeClosure); isMC && mc.Fn == ssa.Value(lit) {
+					uses(mc)
+					continue
+				}
+				for _, op := range in.Operands(nil) {
+					if *op == ssa.Value(lit) {
+						classify(lit, in)
+					}
+				}
+			}
+		}
+		for _, a := range f.AnonFuncs {
+			scan(a)
+		}
+	}
+	scan(parent)
+	return ok
+}
+
+// entryLocks: the locks a helper is entered with: held at every one of its
+// (enumerable) static call sites, renamed from the arguments to the parameters.
+func (cx *c06Ctx) entryLocks(f *ssa.Function) LockSet {
+	if cx.entryCache == nil {
+		cx.entryCache = map[*ssa.Function]LockSet{}
+	}
+	if ls, ok := cx.entryCache[f]; ok {
+		return ls
+	}
+	cx.entryCache[f] = LockSet{} // recursion guard: nothing known
+	if f.Parent() != nil {
+		return LockSet{}
+	}
+	sites, ok := cx.enumerableCallers(f)
+	if !ok {
+		return LockSet{}
+	}
+	var res LockSet
+	for i, cs := range sites {
+		var here LockSet
+		if _, plain := cs.Instr.(*ssa.Call); plain {
+			here = LockSet{}
+			held := cx.locksAt(cs.Instr)
+			args := cs.Args()
+			for path, mode := range held {
+				for j, prm := range f.Params {
+					if j >= len(args) {
+						break
+					}
+					ap := AccessPath(args[j])
+					if strings.HasPrefix(ap, "?") || strings.HasPrefix(ap, "&") {
+						continue
+					}
+					if strings.HasPrefix(path, "&"+ap+".") {
+						here["&"+prm.Name()+path[len(ap)+1:]] = mode
+					}
+				}
+			}
+		} else {
+			here = LockSet{} // go: starts with nothing; defer: runs at exit, not tracked
+		}
+		if i == 0 {
+			res = here
+		} else {
+			res = meet(res, here)
+		}
+	}
+	if res == nil {
+		res = LockSet{}
+	}
+	cx.entryCache[f] = res
+	return res
+}
+
+func (cx *c06Ctx) lockInfo(top *ssa.Function) *LockInfo {
+	if cx.lockCache == nil {
+		cx.lockCache = map[*ssa.Function]*LockInfo{}
+	}
+	if li, ok := cx.lockCache[top]; ok {
+		return li
+	}
+	li := AnalyzeLocks(top, cx.entryLocks(top))
+	cx.lockCache[top] = li
+	return li
+}
+
+// locksAt: the locks held on every path when in executes, the enclosing
+// function being entered with the locks all its callers hold.
+func (cx *c06Ctx) locksAt(in ssa.Instruction) LockSet {
+	return cx.lockInfo(TopFunc(in.Parent())).HeldAt(in)
+}
+
+// climb evaluates check on the occurrence and, while it fails and the root is
+// a helper whose callers can all be enumerated, on the occurrence seen from
+// every caller (the call standing for the helper's body). All callers must pass.
+func (cx *c06Ctx) climb(occ c06Occ, depth int, check func(c06Occ) (bool, string)) (bool, string) {
+	ok, why := check(occ)
+	if ok {
+		return true, ""
+	}
+	if depth >= c06EffDepth-1 {
+		return false, why
+	}
+	sites, enumerable := cx.enumerableCallers(occ.root)
+	if !enumerable {
+		return false, why
+	}
+	for _, cs := range sites {
+		_, plain := cs.Instr.(*ssa.Call)
+		up := c06Occ{root: cs.Fn, in: occ.in, chain: append([]c06Link{{call: cs.Instr, callee: occ.root, direct: plain}}, occ.chain...)}
+		if ok2, why2 := cx.climb(up, depth+1, check); !ok2 {
+			return false, fmt.Sprintf("%s; seen from its caller %s: %s", why, FuncKey(cs.Fn), why2)
+		}
+	}
+	return true, ""
+}
+
+// helperOf: f is a helper all of whose static callers are, recursively, accepted
+// functions (or helpers of accepted functions). Returns the accepted functions
+// it serves. A helper with any other caller, or whose callers cannot all be
+// enumerated, is not accepted.
+func (cx *c06Ctx) helperOf(f *ssa.Function, accept func(*ssa.Function) bool, depth int) ([]*ssa.Function, bool) {
+	if depth >= c06EffDepth {
+		return nil, false
+	}
+	sites, ok := cx.enumerableCallers(f)
+	if !ok {
+		return nil, false
+	}
+	var out []*ssa.Function
+	add := func(g *ssa.Function) {
+		for _, x := range out {
+			if x == g {
+				return
+			}
+		}
+		out = append(out, g)
+	}
+	for _, cs := range sites {
+		t := cs.Fn
+		if t == f {
+			continue
+		}
+		if accept(t) || accept(TopFunc(t)) {
+			add(TopFunc(t))
+			continue
+		}
+		sub, ok := cx.helperOf(t, accept, depth+1)
+		if !ok {
+			return nil, false
+		}
+		for _, g := range sub {
+			add(g)
+		}
+	}
+	return out, len(out) > 0
+}
+
+func c06FuncKeys(fns []*ssa.Function) string {
+	var ks []string
+	for _, f := range fns {
+		ks = append(ks, FuncKey(f))
+	}
+	sort.Strings(ks)
+	return strings.Join(ks, ", ")
+}
+
+// ---- path exploration across helpers
+
+// c06PathQ asks: does every path from a start point to an exit pass an
+// instruction satisfying stop? A direct call of a helper counts when the
+// helper passes one on all its paths (or on all paths to a success return: then
+// only the err == nil edge of the call is discharged); with climb, a helper's
+// return continues after each of its call sites. vals are tracked values
+// (e.g. the mutation map), renamed across calls; an entry is nil when lost.
+type c06PathQ struct {
+	cx           *c06Ctx
+	stop         func(in ssa.Instruction, vals []ssa.Value) bool
+	assume       func(cond ssa.Value) (known, val bool)
+	errorExitsOK bool // returns whose error result is known non-nil need not have passed
+	climbUp      bool
+	summaries    map[string]int // 0 none, 1 on success, 2 always
+}
+
+type c06PLeak struct {
+	exit ssa.Instruction
+}
+
+func c06ValsKey(h *ssa.Function, vals []ssa.Value) string {
+	s := FuncKey(h)
+	for _, v := range vals {
+		if v == nil {
+			s += "|-"
+		} else {
+			s += "|" + v.Name()
+		}
+	}
+	return s
+}
+
+func (q *c06PathQ) definitelyFails(ret *ssa.Return) bool {
+	fn := ret.Parent()
+	if ErrResultIndex(fn) < 0 {
+		return false
+	}
+	for _, nr := range MaybeNilErrorReturns(fn) {
+		if nr.Ret == ret {
+			return false
+		}
+	}
+	return true
+}
+
+func (q *c06PathQ) summary(h *ssa.Function, vals []ssa.Value, depth int) int {
+	if q.summaries == nil {
+		q.summaries = map[string]int{}
+	}
+	key := c06ValsKey(h, vals)
+	if s, ok := q.summaries[key]; ok {
+		return s
+	}
+	q.summaries[key] = 0 // recursion guard
+	sub := *q
+	sub.climbUp = false
+	sub.errorExitsOK = false
+	leaks := sub.explore(h.Blocks[0], 0, vals, depth+1)
+	q.summaries = sub.summaries
+	res := 2
+	for _, lk := range leaks {
+		ret, isRet := lk.exit.(*ssa.Return)
+		if q.errorExitsOK && isRet && q.definitelyFails(ret) {
+			res = 1
+			continue
+		}
+		res = 0
+		break
+	}
+	q.summaries[key] = res
+	return res
+}
+
+// from explores the paths after start.
+func (q *c06PathQ) from(start ssa.Instruction, vals []ssa.Value) []c06PLeak {
+	return q.explore(start.Block(), instrIndex(start)+1, vals, 0)
+}
+
+func (q *c06PathQ) explore(b0 *ssa.BasicBlock, from0 int, vals []ssa.Value, depth int) []c06PLeak {
+	var leaks []c06PLeak
+	fn := b0.Parent()
+	type pend []*ssa.Call
+	pkey := func(p pend) string {
+		s := ""
+		for _, c := range p {
+			s += c.Name() + ","
+		}
+		return s
+	}
+	seen := map[string]bool{}
+	var walk func(b *ssa.BasicBlock, from int, p pend)
+	visit := func(b *ssa.BasicBlock, p pend) {
+		k := fmt.Sprintf("%d/%s", b.Index, pkey(p))
+		if seen[k] {
+			return
+		}
+		seen[k] = true
+		walk(b, 0, p)
+	}
+	walk = func(b *ssa.BasicBlock, from int, p pend) {
+		for i := from; i < len(b.Instrs); i++ {
+			in := b.Instrs[i]
+			if q.stop(in, vals) {
+				return
+			}
+			switch t := in.(type) {
+			case *ssa.Call:
+				callee := (CallSite{fn, t}).Callee()
+				if depth < c06EffDepth-1 && q.cx.isHelper(callee) {
+					down := make([]ssa.Value, len(vals))
+					args := (CallSite{fn, t}).Args()
+					for vi, v := range vals {
+						if v == nil {
+							continue
+						}
+						for ai, a := range args {
+							if ai < len(callee.Params) && c06SamePlace(a, v) {
+								down[vi] = callee.Params[ai]
+							}
+						}
+						if down[vi] == nil && callee.Parent() != nil {
+							down[vi] = v // a literal sees the enclosing function's values
+						}
+					}
+					switch q.summary(callee, down, depth) {
+					case 2:
+						return
+					case 1:
+						if _, hasErr, discarded := ErrValue(t); hasErr && !discarded {
+							p = append(append(pend{}, p...), t)
+						}
+					}
+				}
+			case *ssa.Return:
+				if q.errorExitsOK && q.definitelyFails(t) {
+					return
+				}
+				if q.errorExitsOK && len(p) > 0 {
+					if idx := ErrResultIndex(fn); idx >= 0 {
+						for _, ri := range Returns(fn) {
+							if ri.Ret != t {
+								continue
+							}
+							for _, pc := range p {
+								if ev, _, _ := ErrValue(pc); ev != nil && sameOrigin(ri.Results[idx], ev) {
+									return // returns the helper's own error: success only if it passed
+								}
+							}
+						}
+					}
+				}
+				if q.climbUp && depth < c06EffDepth-1 {
+					if sites, ok := q.cx.enumerableCallers(fn); ok {
+						for _, cs := range sites {
+							call, plain := cs.Instr.(*ssa.Call)
+							if !plain {
+								leaks = append(leaks, c06PLeak{t})
+								continue
+							}
+							upv := make([]ssa.Value, len(vals))
+							args := cs.Args()
+							for vi, v := range vals {
+								if v == nil {
+									continue
+								}
+								switch ov := originValue(v).(type) {
+								case *ssa.Parameter:
+									for pi, prm := range fn.Params {
+										if prm == ov && pi < len(args) {
+											upv[vi] = args[pi]
+										}
+									}
+								case *ssa.Global, *ssa.Const:
+									upv[vi] = ov
+								default:
+									if fn.Parent() != nil && c06OwnerFn(ov) != fn {
+										upv[vi] = ov
+									}
+								}
+							}
+							sub := *q
+							leaks = append(leaks, sub.explore(call.Block(), instrIndex(call)+1, upv, depth+1)...)
+							q.summaries = sub.summaries
+						}
+						return
+					}
+				}
+				leaks = append(leaks, c06PLeak{t})
+				return
+			case *ssa.Panic:
+				return
+			case *ssa.If:
+				if q.assume != nil {
+					if known, val := q.assume(t.Cond); known {
+						s := b.Succs[1]
+						if val {
+							s = b.Succs[0]
+						}
+						visit(s, p)
+						return
+					}
+				}
+				if len(p) > 0 {
+					for side := 0; side < 2; side++ {
+						np := pend{}
+						discharged := false
+						for _, pc := range p {
+							ev, _, _ := ErrValue(pc)
+							if known, isNil := condSaysNil(t.Cond, side == 0, ev); known {
+								if isNil {
+									discharged = true
+								}
+								continue // failed: no longer pending
+							}
+							np = append(np, pc)
+						}
+						if !discharged {
+							visit(b.Succs[side], np)
+						}
+					}
+					return
+				}
+			}
+		}
+		for _, s := range b.Succs {
+			visit(s, p)
+		}
+	}
+	walk(b0, from0, nil)
+	return leaks
 }
 
 // ---------------------------------------------------------------------------
@@ -4289,43 +5756,55 @@ func c06RuleDerived(cx *c06Ctx, live, all *c06CG, sites []c06WSite) int {
 	{
 		n++
 		bad := ""
-		var falseStores []*ssa.Store
+		buildingStore := func(in ssa.Instruction) (isFalse, ok bool) {
+			st, isSt := in.(*ssa.Store)
+			if !isSt {
+				return false, false
+			}
+			nn, f, base, isF := c06FieldOf(st.Addr)
+			if !isF || nn != tCorpus || f != "building" || c06Roots(base).onlyFresh() {
+				return false, false
+			}
+			c, isC := st.Val.(*ssa.Const)
+			return isC && c.Value != nil && c.Value.String() == "false", true
+		}
 		for _, fn := range cx.fns {
 			for _, b := range fn.Blocks {
 				for _, in := range b.Instrs {
-					st, ok := in.(*ssa.Store)
-					if !ok {
+					if _, ok := buildingStore(in); !ok || fn == scanFn {
 						continue
 					}
-					nn, f, base, ok := c06FieldOf(st.Addr)
-					if !ok || nn != tCorpus || f != "building" || c06Roots(base).onlyFresh() {
-						continue
-					}
-					if fn != scanFn {
+					// a helper split off scanFromStorage (all its callers are scanFromStorage or such helpers) counts as scanFromStorage
+					if _, isHelper := cx.helperOf(fn, func(f *ssa.Function) bool { return f == scanFn }, 0); !isHelper {
 						bad = c06FnName(fn) + " assigns Corpus.building outside scanFromStorage"
-					}
-					if c, isC := st.Val.(*ssa.Const); isC && c.Value != nil && c.Value.String() == "false" {
-						falseStores = append(falseStores, st)
 					}
 				}
 			}
 		}
 		if bad == "" {
+			stores := cx.effFind(scanFn, "w:building", func(in ssa.Instruction) bool { _, ok := buildingStore(in); return ok })
 			for _, nr := range MaybeNilErrorReturns(scanFn) {
 				ok := false
-				for _, st := range falseStores {
-					if !Precedes(st, c06LastInstr(nr.From)) {
+				retOcc := c06Occ{root: scanFn, in: c06LastInstr(nr.From)}
+				for _, fo := range stores {
+					if isFalse, _ := buildingStore(fo.in); !isFalse {
+						continue
+					}
+					if done, _ := cx.before(fo, retOcc, nr.Val, true); !done {
 						continue
 					}
 					ok = true
-					for in := range ReachableFrom(st, nil) {
-						if s2, isSt := in.(*ssa.Store); isSt {
-							if nn, f, _, isF := c06FieldOf(s2.Addr); isF && nn == tCorpus && f == "building" && s2 != st {
-								if c, isC := s2.Val.(*ssa.Const); !isC || c.Value == nil || c.Value.String() != "false" {
-									ok = false
-								}
-							}
+					for _, so := range stores {
+						if isFalse, _ := buildingStore(so.in); isFalse || so.in == fo.in {
+							continue
 						}
+						k := fo.common(so)
+						if fo.rep(k) == so.rep(k) || ReachableFrom(fo.rep(k), nil)[so.rep(k)] {
+							ok = false // set to true again afterwards
+						}
+					}
+					if ok {
+						break
 					}
 				}
 				if !ok {
@@ -6864,12 +8343,62 @@ func (o *c06Of) buildKinds() {
 	scanFn := p.Func(c06Rel, "Corpus", "scanFromStorage")
 	scanPrefix := p.Func(c06Rel, "Corpus", "scanPrefix")
 	o.drivers = map[*ssa.Function]bool{addBlob: true, scanFn: true, scanPrefix: true}
+	// helpers split off a driver are drivers too: unexported functions / literals in a
+	// driver's effective body that (transitively) contain the table dispatch — a dynamic
+	// call of a merge-function-typed value — or a call of scanPrefix
+	var mergeSig types.Type
+	if mt, ok := cx.gMerge.Type().(*types.Pointer).Elem().Underlying().(*types.Map); ok {
+		mergeSig = mt.Elem()
+	}
+	drives := cx.effReach("driver-core", func(in ssa.Instruction) bool {
+		call, ok := in.(*ssa.Call)
+		if !ok || call.Call.IsInvoke() {
+			return false
+		}
+		c := CallSite{in.Parent(), call}
+		if c.Callee() == scanPrefix {
+			return true
+		}
+		if c.Callee() != nil {
+			return false
+		}
+		if _, isBuiltin := call.Call.Value.(*ssa.Builtin); isBuiltin {
+			return false
+		}
+		return mergeSig != nil && types.Identical(call.Call.Value.Type().Underlying(), mergeSig.Underlying())
+	})
+	var spread func(d *ssa.Function, depth int)
+	spread = func(d *ssa.Function, depth int) {
+		if depth >= c06EffDepth {
+			return
+		}
+		for _, l := range cx.helperLinks(d) {
+			h := l.callee
+			if o.drivers[h] || cx.mergeImpl[h] || !drives.any[h] {
+				continue
+			}
+			o.drivers[h] = true
+			spread(h, depth+1)
+		}
+	}
+	// the drivers that merge rows one by one (addBlob, scanPrefix and what was split off them);
+	// scanFromStorage and its helpers only start scans
+	spread(addBlob, 0)
+	spread(scanPrefix, 0)
 	seen := map[*ssa.Function]bool{}
 	var direct []*ssa.Function
-	for _, d := range []*ssa.Function{addBlob, scanPrefix} {
+	var driverList []*ssa.Function
+	for d := range o.drivers {
+		if d != scanFn {
+			driverList = append(driverList, d)
+		}
+	}
+	spread(scanFn, 0)
+	sort.Slice(driverList, func(i, j int) bool { return FuncKey(driverList[i]) < FuncKey(driverList[j]) })
+	for _, d := range driverList {
 		for _, c := range CallsIn(d, true) {
 			h := c.Callee()
-			if h == nil || h.Blocks == nil || seen[h] || o.drivers[TopFunc(h)] || cx.mergeImpl[h] || h.Signature.Recv() == nil || NamedOf(h.Signature.Recv().Type()) != cx.tCorpus {
+			if h == nil || h.Blocks == nil || seen[h] || o.drivers[h] || o.drivers[TopFunc(h)] || cx.mergeImpl[h] || h.Signature.Recv() == nil || NamedOf(h.Signature.Recv().Type()) != cx.tCorpus {
 				continue
 			}
 			seen[h] = true
@@ -6924,96 +8453,87 @@ func (o *c06Of) orderedBefore(a, b *c06OfKind) string {
 	addBlob := p.Func(c06Rel, "Corpus", "addBlob")
 	scanFn := p.Func(c06Rel, "Corpus", "scanFromStorage")
 	scanPrefix := p.Func(c06Rel, "Corpus", "scanPrefix")
-	// live: a direct merger of kind a, given addBlob's mutation map, success-dominates the row dispatch
-	var dispatch ssa.Instruction
-	for _, c := range CallsIn(addBlob, false) {
-		if c.Value() == nil || c.Common().IsInvoke() || c.Callee() != nil {
-			continue
-		}
-		if lk, ok := originValue(c.Common().Value).(*ssa.Lookup); ok && c06LoadsGlobal(lk.X, cx.gMerge) {
+	// live: a direct merger of kind a, given addBlob's mutation map, success-dominates the row
+	// dispatch (both looked for in addBlob's effective body)
+	var dispatch *c06Occ
+	for _, dc := range cx.dynCalls(addBlob) {
+		fv, _ := dc.up(dc.in.(*ssa.Call).Call.Value, dc.leafLevel())
+		if lk, ok := originValue(fv).(*ssa.Lookup); ok && c06LoadsGlobal(lk.X, cx.gMerge) {
 			if dispatch != nil {
 				return ""
 			}
-			dispatch = c.Instr
+			dc := dc
+			dispatch = &dc
 		}
 	}
 	if dispatch == nil {
 		return ""
 	}
-	live := ""
-	for _, c := range CallsIn(addBlob, false) {
-		h := c.Callee()
-		if h == nil || c.Value() == nil {
-			continue
+	var mmParam *ssa.Parameter
+	for _, prm := range addBlob.Params {
+		if NamedOf(prm.Type()) == cx.tMM {
+			mmParam = prm
 		}
-		isRoot := false
+	}
+	live := ""
+	isRootOfA := func(h *ssa.Function) bool {
 		for _, rt := range a.roots {
 			if rt == h {
-				isRoot = true
+				return true
 			}
 		}
-		if !isRoot {
-			continue
-		}
+		return false
+	}
+	for _, ho := range cx.effCalls(addBlob, "", func(c CallSite) bool { return c.Value() != nil && c.Callee() != nil && isRootOfA(c.Callee()) }) {
+		c := CallSite{ho.in.Parent(), ho.in.(ssa.CallInstruction)}
 		given := false
 		for _, arg := range c.Args() {
-			if prm, ok := originValue(arg).(*ssa.Parameter); ok && prm.Parent() == addBlob && NamedOf(prm.Type()) == cx.tMM {
+			if mmParam != nil && c06SameVal(ho.leafVal(arg), c06Val{mmParam, c06Occ{root: addBlob}, 0}) {
 				given = true
 			}
 		}
 		if !given {
 			continue
 		}
-		if ok, _ := SuccessDominates(c.Value(), dispatch); ok {
-			live = h.Name() + "(mm) succeeds before the rows of mm.kv are dispatched"
+		if ok, _ := cx.before(ho, *dispatch, nil, true); ok {
+			live = c.Callee().Name() + "(mm) succeeds before the rows of mm.kv are dispatched"
 		}
 	}
 	if live == "" {
 		return ""
 	}
 	// load: an explicit scan of a's prefix success-dominates every scan that can deliver b's rows
-	var head *ssa.Call
+	// (scans looked for in scanFromStorage's effective body, prefixes followed through parameters)
+	var head *c06Occ
 	type scan struct {
-		anchor ssa.Instruction
-		kind   string // "" = ranged
+		occ  c06Occ
+		kind string // "" = ranged
 	}
 	var scans []scan
-	for _, c := range CallsIn(scanFn, true) {
-		if c.Callee() != scanPrefix {
-			continue
-		}
-		var anchor ssa.Instruction = c.Instr
-		if c.Fn != scanFn {
-			anchor = nil
-			lit := c.Fn
-			for lit.Parent() != nil && lit.Parent() != scanFn {
-				lit = lit.Parent()
-			}
-			for _, blk := range scanFn.Blocks {
-				for _, in := range blk.Instrs {
-					if mc, ok := in.(*ssa.MakeClosure); ok && mc.Fn == ssa.Value(lit) {
-						anchor = mc
-					}
-				}
-			}
-			if anchor == nil {
-				return ""
-			}
-		}
+	for _, so := range cx.effCalls(scanFn, "call:scanPrefix", func(c CallSite) bool { return c.Callee() == scanPrefix }) {
+		c := CallSite{so.in.Parent(), so.in.(ssa.CallInstruction)}
 		kind := ""
 		args := c.Args()
-		if pfx, complete := cx.keyPrefix(args[len(args)-1], 0); complete {
+		pv, _ := so.up(args[len(args)-1], so.leafLevel())
+		if pfx, complete := cx.keyPrefix(pv, 0); complete {
 			if kd, ok := c06SplitKind(pfx, true); ok {
 				kind = kd.typ
 			}
 		}
-		if kind == a.name && c.Fn == scanFn && c.Value() != nil {
+		sync := c.Value() != nil
+		for _, l := range so.chain {
+			if !l.direct {
+				sync = false
+			}
+		}
+		if kind == a.name && sync {
 			if head != nil {
 				return ""
 			}
-			head = c.Value()
+			so := so
+			head = &so
 		}
-		scans = append(scans, scan{anchor, kind})
+		scans = append(scans, scan{so, kind})
 	}
 	if head == nil {
 		return ""
@@ -7032,7 +8552,7 @@ func (o *c06Of) orderedBefore(a, b *c06OfKind) string {
 		if (explicitB && s.kind != b.name) || (!explicitB && s.kind != "") {
 			continue
 		}
-		if ok, _ := SuccessDominates(head, s.anchor); !ok {
+		if ok, _ := cx.before(*head, s.occ, nil, true); !ok {
 			return ""
 		}
 		n++
